@@ -15,8 +15,8 @@ from fractions import Fraction as Fr
 
 ID = "C11"
 LEAN_MODULES = ["EzdxfVerif.Props.C11"]
-GEN = ["VectorPy", "VectorPyx", "Matrix44Py", "Matrix44Pyx", "UcsPy", "UcsPyx"]
-DRIVER_DEPS = ["EzdxfVerif.Model.Rat3", "Drivers.Proto"] + [f"EzdxfVerif.Gen.{g}" for g in GEN]
+GEN = ["VectorPy", "VectorPyx", "Matrix44Py", "Matrix44Pyx", "UcsPy", "UcsPyx", "ConstructPy", "ConstructPyx"]
+DRIVER_DEPS = ["EzdxfVerif.Model.Rat3", "EzdxfVerif.Model.UcsMachine", "Drivers.Proto"] + [f"EzdxfVerif.Gen.{g}" for g in GEN]
 
 VPY, VPYX = "src/ezdxf/math/_vector.py", "src/ezdxf/acc/vector.pyx"
 MPY, MPYX = "src/ezdxf/math/_matrix44.py", "src/ezdxf/acc/matrix44.pyx"
@@ -62,8 +62,77 @@ def vector_kernels(pyx: bool):
         ("v2lt", "Vec2.__lt__", [A2, B2]),
         ("v2isclose", "Vec2.isclose", [A2, B2]),
         ("v2sum", "Vec2.sum", [("items", ("list", "v2"), "vs")]),
+        # session 3
+        ("v3truediv", "Vec3.__truediv__", [A, ("factor" if pyx else "other", "rat", "k")]),
+        ("v3rmul", "Vec3.__rmul__", [A, ("factor" if pyx else "other", "rat", "k")]),
+        ("v3radd", "Vec3.__radd__", [A, B]),
+        ("v3reversed", "Vec3.reversed", [A]),
+        ("v3vec2", "Vec3.vec2", [A]),
+        ("v3xy", "Vec3.xy", [A]),
+        ("v3mag", "Vec3.magnitude", [A]),
+        ("v3magxy", "Vec3.magnitude_xy", [A]),
+        ("v3normalizeL", "Vec3.normalize", [A, ("length", "rat")]),
+        ("v3isclose2", "Vec3.isclose", [A, B, ("rel_tol", "rat"), ("abs_tol", "rat")]),
+        ("v3isparallel", "Vec3.is_parallel", [A, B]),
+        ("v2truediv", "Vec2.__truediv__", [A2, ("factor" if pyx else "other", "rat", "k")]),
+        ("v2isnull", "Vec2.is_null", [A2]),
+        ("v2normalize", "Vec2.normalize", [A2]),
+        ("v2project", "Vec2.project", [A2, B2]),
+        ("v2distance", "Vec2.distance", [A2, B2]),
+        ("v3bool", "Vec3.__bool__", [A]),
+        ("v2bool", "Vec2.__bool__", [A2]),
+        ("v2rmul", "Vec2.__rmul__", [A2, ("factor" if pyx else "other", "rat", "k")]),
     ]
-    return [(n, q, p, {}) for n, q, p in k]
+    out = [(n, q, p, {}) for n, q, p in k]
+    # constructor decoding (`Vec3.decompose` / the Cython `__cinit__` are written independently) and from_angle:
+    # Python EXPRESSIONS executed by the symbolic executor
+    ra, rb, rc = ("a", "rat"), ("b", "rat"), ("c", "rat")
+    for n, e, ps in (("v3ctor0", "Vec3()", []), ("v3ctor2", "Vec3(a, b)", [ra, rb]), ("v3ctor3", "Vec3(a, b, c)", [ra, rb, rc]),
+                     ("v3ctorT2", "Vec3((a, b))", [ra, rb]), ("v3ctorT3", "Vec3((a, b, c))", [ra, rb, rc]),
+                     ("v3ctorL3", "Vec3([a, b, c])", [ra, rb, rc]), ("v3ctorV2", "Vec3(p)", [("p", "v2")]),
+                     ("v3ctorV3", "Vec3(v)", [("v", "v3")]), ("v2ctor0", "Vec2()", []), ("v2ctor2", "Vec2(a, b)", [ra, rb]),
+                     ("v2ctorT2", "Vec2((a, b))", [ra, rb]), ("v2ctorT3", "Vec2((a, b, c))", [ra, rb, rc]),
+                     ("v2ctorV3", "Vec2(v)", [("v", "v3")]), ("v2ctorV2", "Vec2(p)", [("p", "v2")]),
+                     ("v3fromAngle", "Vec3.from_angle(t, k)", [("t", "angle"), ("k", "rat")]),
+                     ("v2fromAngle", "Vec2.from_angle(t, k)", [("t", "angle"), ("k", "rat")])):
+        out.append((n, None, ps, {"expr": e}))
+    return out
+
+
+C3D = "src/ezdxf/math/construct3d.py"
+
+
+def hash_kernels(prog, vsrc: str):
+    """`__hash__` of Vec3/Vec2 must be `return hash(<E>)`; the argument expression E is extracted from the (pre-processed)
+    AST of the current source and becomes an expression kernel: what the hash is a function of"""
+    import ast
+    from translate.py2lean import Unsupported
+    out = []
+    for cls, name, typ in (("Vec3", "v3hashArg", "v3"), ("Vec2", "v2hashArg", "v2")):
+        f = prog.module(vsrc).classes[cls].lookup("__hash__")
+        body = [st for st in f.node.body if not (isinstance(st, ast.Expr) and isinstance(st.value, ast.Constant))]
+        ok = (len(body) == 1 and isinstance(body[0], ast.Return) and isinstance(body[0].value, ast.Call)
+              and isinstance(body[0].value.func, ast.Name) and body[0].value.func.id == "hash" and len(body[0].value.args) == 1
+              and not body[0].value.keywords)
+        if not ok:
+            raise Unsupported(f"{vsrc}: {cls}.__hash__ is not `return hash(<expr>)`")
+        me = f.node.args.args[0].arg
+        out.append((name, None, [(me, typ, "a")], {"expr": ast.unparse(body[0].value.args[0])}))
+    return out
+
+
+def construct_kernels(pyx: bool):
+    """session 3: helpers of math/construct3d.py (linked against each twin)"""
+    k = [
+        ("normal3p", "normal_vector_3p", [("a", "v3"), ("b", "v3"), ("c", "v3")], {}),
+        ("distPointLine", "distance_point_line_3d", [("point", "v3", "p"), ("start", "v3", "a"), ("end", "v3", "b")], {}),
+    ]
+    if pyx:  # `m *= ...` is NumPy in the Python twin (textbook product there)
+        k.append(("basicT0", "basic_transformation", [("move", "v3"), ("scale", "v3"), ("z_rotation", ("const", 0))], {}))
+        # the general form: the truth value of the angle (`if z_rotation:`) is the Boolean parameter z_rotation_nz
+        k.append(("basicT", None, [("move", "v3"), ("scale", "v3"), ("z_rotation", "angle"), ("z_rotation_nz", "bool")],
+                  {"expr": "basic_transformation(move, scale, z_rotation)"}))
+    return k
 
 
 def matrix_kernels(pyx: bool):
@@ -93,6 +162,12 @@ def matrix_kernels(pyx: bool):
         ("uz", "Matrix44.uz", [M], {}),
         ("copy", "Matrix44.copy", [M], {}),
         ("from2d", "Matrix44.from_2d_transformation", [("components", ("tuple", ["rat"] * 6), "c")], {}),
+        # session 3: frame predicates (decision logic on normalised axes)
+        ("get2d", "Matrix44.get_2d_transformation", [M], {}),
+        ("getRow", None, [("m", "m44")], {"expr": "(m.get_row(0), m.get_row(1), m.get_row(2), m.get_row(3))"}),
+        ("getCol", None, [("m", "m44")], {"expr": "(m.get_col(0), m.get_col(1), m.get_col(2), m.get_col(3))"}),
+        ("isCartesian", "Matrix44.is_cartesian", [M], {}),
+        ("isOrthogonal", "Matrix44.is_orthogonal", [M], {}),
     ]
     if pyx:  # explicit arithmetic exists only in the Cython twin; the NumPy forms of the Python twin are modelled
         k += [  # by the textbook algebra of Model/Rat3.lean (M44.mul/transpose/det/inv/chain) and tied by correspondence
@@ -113,6 +188,157 @@ def matrix_kernels(pyx: bool):
 OCS_OBJ = ("obj", "OCS", {"transform": "bool", "matrix": "m44"})
 UCS_OBJ = ("obj", "UCS", {"matrix": "m44"})
 P = ("point", "v3", "p")
+
+
+# UCS as a parameter of an *expression* kernel (method SEQUENCES executed on ONE symbolic object)
+UCS_E = ("ucs", ("obj", "UCS", {"matrix": "m44"}), "s")
+OCS_E = ("ocs", ("obj", "OCS", {"transform": "bool", "matrix": "m44"}), "o")
+
+
+def ucs_state_kernels(pyx: bool):
+    """session 3: the UCS/OCS classes as state machines.  Mutators and method sequences are translated as Python
+    EXPRESSIONS evaluated by the symbolic executor on one object whose instance state is exactly {matrix}
+    (see `instance_attrs`): the result of `s.transform(m).to_ocs(p)` is whatever the source does with the state
+    the earlier calls left behind (a cached attribute included, if the source had one)."""
+    p, q, d, o_, m = ("p", "v3"), ("q", "v3"), ("d", "v3"), ("o", "v3"), ("m", "m44")
+    ps = ("ps", ("list", "v3"))
+    E = lambda name, expr, params: (name, None, params, {"expr": expr})
+    k = [
+        # ---- in-place mutators: the new value of the only instance attribute
+        E("ucsShift", "ucs.shift(d).matrix", [UCS_E, d]),
+        E("ucsMoveto", "ucs.moveto(o).matrix", [UCS_E, o_]),
+        E("ucsCopy", "ucs.copy().matrix", [UCS_E]),
+        # ---- queries (functions of the state) and their frame condition: the state after the query
+        ("ucsToOcs", "UCS.to_ocs", [("self", UCS_OBJ), P], {}),
+        ("ucsDirToOcs", "UCS.ucs_direction_to_ocs_direction", [("self", UCS_OBJ), ("direction", "v3", "p")], {}),
+        ("ucsPointsToOcs", "UCS.points_to_ocs", [("self", UCS_OBJ), ("points", ("list", "v3"), "ps")], {}),
+        ("ucsPointsFromWcs", "UCS.points_from_wcs", [("self", UCS_OBJ), ("points", ("list", "v3"), "ps")], {}),
+        ("ucsOrigin", "UCS.origin", [("self", UCS_OBJ)], {}),
+        ("ucsUx", "UCS.ux", [("self", UCS_OBJ)], {}),
+        ("ucsUy", "UCS.uy", [("self", UCS_OBJ)], {}),
+        ("ucsUz", "UCS.uz", [("self", UCS_OBJ)], {}),
+        E("ucsToOcsFrame", "(ucs.to_ocs(p), ucs.matrix)[1]", [UCS_E, p]),
+        E("ucsToWcsFrame", "(ucs.to_wcs(p), ucs.from_wcs(p), ucs.direction_to_wcs(p), ucs.direction_from_wcs(p), ucs.matrix)[4]",
+          [UCS_E, p]),
+        # ---- method sequences on ONE object: query (warms whatever the object caches), mutate, query again
+        E("ucsSeqShiftToOcs", "(ucs.to_ocs(q), ucs.shift(d).to_ocs(p))[1]", [UCS_E, q, d, p]),
+        E("ucsSeqMovetoToOcs", "(ucs.to_ocs(q), ucs.moveto(o).to_ocs(p))[1]", [UCS_E, q, o_, p]),
+        E("ucsSeqShiftToWcs", "(ucs.to_wcs(q), ucs.from_wcs(q), ucs.shift(d).to_wcs(p))[2]", [UCS_E, q, d, p]),
+        E("ocsSeqRoundtrip", "ocs.to_wcs(ocs.from_wcs(p))", [OCS_E, p]),
+        # ---- factories that return NEW objects: the six axis/point constructors, the four rotations
+        ("ucsIsCartesian", "UCS.is_cartesian", [("self", UCS_OBJ)], {}),
+    ]
+    o3, ax, pt = ("origin", "v3", "o"), ("axis", "v3", "ax"), ("point", "v3", "pt")
+    for nm, meth in (("ucsFromXaxisXY", "from_x_axis_and_point_in_xy"), ("ucsFromXaxisXZ", "from_x_axis_and_point_in_xz"),
+                     ("ucsFromYaxisXY", "from_y_axis_and_point_in_xy"), ("ucsFromYaxisYZ", "from_y_axis_and_point_in_yz"),
+                     ("ucsFromZaxisXZ", "from_z_axis_and_point_in_xz"), ("ucsFromZaxisYZ", "from_z_axis_and_point_in_yz")):
+        k.append(E(nm, f"UCS.{meth}(origin, axis, point).matrix", [o3, ax, pt]))
+    k += [
+        E("ucsRotateLocalX", "ucs.rotate_local_x(angle).matrix", [UCS_E, ("angle", "angle")]),
+        E("ucsRotateLocalY", "ucs.rotate_local_y(angle).matrix", [UCS_E, ("angle", "angle")]),
+        E("ucsRotateLocalZ", "ucs.rotate_local_z(angle).matrix", [UCS_E, ("angle", "angle")]),
+        E("ucsRotate", "ucs.rotate(axis, angle).matrix", [UCS_E, ("axis", "v3"), ("angle", "angle")]),
+    ]
+    if pyx:  # `self.matrix *= m` is explicit arithmetic only in the Cython twin (NumPy form in the Python twin -> M44.mul)
+        k += [
+            E("ucsTransform", "ucs.transform(m).matrix", [UCS_E, m]),
+            E("ucsSeqTransformToOcs", "(ucs.to_ocs(q), ucs.transform(m).to_ocs(p))[1]", [UCS_E, q, m, p]),
+            E("ucsSeqTransformDirToOcs", "(ucs.ucs_direction_to_ocs_direction(q), ucs.transform(m).ucs_direction_to_ocs_direction(p))[1]",
+              [UCS_E, q, m, p]),
+            E("ucsSeqTransformToWcs", "(ucs.to_wcs(q), ucs.transform(m).to_wcs(p))[1]", [UCS_E, q, m, p]),
+            E("ucsSeqTransformFromWcs", "(ucs.from_wcs(q), ucs.transform(m).from_wcs(p))[1]", [UCS_E, q, m, p]),
+        ]
+    return k
+
+
+def instance_attrs(src: str, cls: str) -> list:
+    """names of ALL instance attributes a class of ucs.py ever assigns (`self.x = ...`, `self.x: T = ...`,
+    `self.x += ...` in any method), in order of first appearance: the complete mutable state of an instance"""
+    import ast
+    tree = ast.parse(src)
+    out = []
+    for node in tree.body:
+        if isinstance(node, ast.ClassDef) and node.name == cls:
+            props = set()  # names bound to property objects (setter calls are not instance state)
+            for st in node.body:
+                if isinstance(st, ast.FunctionDef):
+                    for dec in st.decorator_list:
+                        if (isinstance(dec, ast.Name) and dec.id == "property") or \
+                                (isinstance(dec, ast.Attribute) and dec.attr in ("setter", "getter", "deleter")):
+                            props.add(st.name)
+            for fn in ast.walk(node):
+                if not isinstance(fn, (ast.FunctionDef, ast.AsyncFunctionDef)) or not fn.args.args:
+                    continue
+                me = fn.args.args[0].arg
+                for st in ast.walk(fn):
+                    targets = []
+                    if isinstance(st, ast.Assign):
+                        targets = st.targets
+                    elif isinstance(st, (ast.AnnAssign, ast.AugAssign)):
+                        targets = [st.target]
+                    elif isinstance(st, ast.Call) and isinstance(st.func, ast.Name) and st.func.id == "setattr":
+                        raise ValueError(f"{cls}.{fn.name}: setattr() - instance state not statically known")
+                    for t in targets:
+                        for leaf in ast.walk(t):
+                            if isinstance(leaf, ast.Attribute) and isinstance(leaf.value, ast.Name) and leaf.value.id == me \
+                                    and isinstance(leaf.ctx, ast.Store) and leaf.attr not in out and leaf.attr not in props:
+                                out.append(leaf.attr)
+    return out
+
+
+def slots_of(src: str, cls: str) -> list:
+    """`__slots__` of a pure-Python class (a class with __slots__ and without '__dict__' in it has no other instance state)"""
+    import ast
+    for node in ast.parse(src).body:
+        if isinstance(node, ast.ClassDef) and node.name == cls:
+            for st in node.body:
+                if isinstance(st, ast.Assign) and any(isinstance(t, ast.Name) and t.id == "__slots__" for t in st.targets):
+                    v = ast.literal_eval(st.value)
+                    return [v] if isinstance(v, str) else list(v)
+            raise ValueError(f"{cls}: no __slots__ (instance state not closed)")
+    raise ValueError(f"class {cls} not found")
+
+
+def pxd_fields(pxd: str, cls: str) -> list:
+    """C attributes of a `cdef class` as declared in its .pxd (cdef classes cannot grow other attributes)"""
+    import re
+    out, inside = [], False
+    for line in pxd.splitlines():
+        if re.match(r"cdef class\s+%s\s*:" % cls, line):
+            inside = True
+            continue
+        if inside:
+            if line.strip() and not line.startswith((" ", "\t")):
+                break
+            t = line.strip()
+            if not t or t.startswith("#") or "(" in t:
+                continue  # C methods
+            m = re.match(r"cdef\s+(?:readonly\s+|public\s+)?[A-Za-z_][A-Za-z_0-9]*\s*\*?\s*(.+)$", t)
+            if not m:
+                raise ValueError(f"{cls}: cannot read pxd line {t!r}")
+            out += [re.sub(r"\[.*\]", "", n).strip() for n in m.group(1).split(",")]
+    if not out:
+        raise ValueError(f"{cls}: no cdef attributes found in pxd")
+    return out
+
+
+NUMPY_FORMS = ("__mul__", "__imul__", "__matmul__", "transpose", "determinant", "inverse")
+
+
+def numpy_forms(src: str) -> list:
+    """the bodies (docstrings stripped, `ast.unparse`d) of the Matrix44 methods of the pure-Python twin that are NumPy calls.
+    The model replaces exactly these texts by the textbook algebra (np.matmul -> M44.mul, .T -> transpose, np.linalg.det ->
+    det, np.linalg.inv + LinAlgError -> inv / ZeroDivisionError); any other code in them is outside that assumption."""
+    import ast
+    out = []
+    for node in ast.parse(src).body:
+        if isinstance(node, ast.ClassDef) and node.name == "Matrix44":
+            for st in node.body:
+                if isinstance(st, ast.FunctionDef) and st.name in NUMPY_FORMS:
+                    body = [b for b in st.body if not (isinstance(b, ast.Expr) and isinstance(b.value, ast.Constant))]
+                    out.append((st.name, "; ".join(ast.unparse(b).replace("\n", " ") for b in body)))
+    out.sort(key=lambda t: NUMPY_FORMS.index(t[0]))
+    return out
 
 
 def ucs_kernels():
@@ -141,58 +367,112 @@ def ucs_kernels():
 
 def regenerate(ctx):
     from translate.py2lean import Program, translate, lean_file
+    from translate.c11ext import angle_truth
 
     def read(rel):
         try:
             return ctx.src(rel)
         except FileNotFoundError:
             raise
+    # the complete instance state of the two classes of ucs.py, from the AST of the current source; written FIRST so
+    # that it is refreshed even when a kernel below leaves the translatable subset
+    from leanfmt import lean_str
+    usrc = read(UCS)
+    txt = "namespace EzdxfVerif.Gen.UcsAttrs\n\n"
+    for cls, name in (("UCS", "ucsInstanceAttrs"), ("OCS", "ocsInstanceAttrs")):
+        attrs = instance_attrs(usrc, cls)
+        txt += (f"/-- every attribute that a method of `{cls}` assigns on `self` (AST of ucs.py): the whole mutable state -/\n"
+                f"def {name} : List String := [" + ", ".join(lean_str(a) for a in attrs) + "]\n\n")
+    # closed instance state of the vector / matrix classes: __slots__ (Python twin), cdef attributes of the .pxd (Cython twin)
+    for name, vals in (("pyMatrix44Slots", slots_of(read(MPY), "Matrix44")), ("pyVec3Slots", slots_of(read(VPY), "Vec3")),
+                       ("pyVec2Slots", slots_of(read(VPY), "Vec2")), ("pyxMatrix44Fields", pxd_fields(read(PXD[1]), "Matrix44")),
+                       ("pyxVec3Fields", pxd_fields(read(PXD[0]), "Vec3")), ("pyxVec2Fields", pxd_fields(read(PXD[0]), "Vec2"))):
+        txt += f"def {name} : List String := [" + ", ".join(lean_str(a) for a in vals) + "]\n\n"
+    txt += ("/-- the NumPy-form methods of the pure-Python Matrix44, as source text: what the textbook stand-ins replace -/\n"
+            "def pyNumpyForms : List (String × String) := [\n  " +
+            ",\n  ".join(f"({lean_str(n)}, {lean_str(b)})" for n, b in numpy_forms(read(MPY))) + "]\n\n")
+    ctx.write_gen("UcsAttrs", txt + "end EzdxfVerif.Gen.UcsAttrs\n", [UCS, MPY, VPY, PXD[0], PXD[1]])
+    poly = ctx.__dict__.setdefault("c11_poly", {})
+    failed = []
     for twin, vsrc, msrc, suffix in (("py", VPY, MPY, "Py"), ("pyx", VPYX, MPYX, "Pyx")):
         prog = Program(read)
         prog.link("ezdxf.math", [vsrc, msrc])
         pyx = twin == "pyx"
         srcs = {"Vector": [vsrc] + ([PXD[0], PXD[2]] if pyx else []),
                 "Matrix44": [msrc, vsrc] + (PXD if pyx else []),
-                "Ucs": [UCS, vsrc, msrc] + (PXD if pyx else [])}
-        for mod, path, kernels in (("Vector", vsrc, vector_kernels(pyx)), ("Matrix44", msrc, matrix_kernels(pyx)),
-                                   ("Ucs", UCS, ucs_kernels())):
+                "Ucs": [UCS, vsrc, msrc] + (PXD if pyx else []),
+                "Construct": [C3D, vsrc, msrc] + (PXD if pyx else [])}
+        for mod, path, kernels in (("Vector", vsrc, vector_kernels(pyx) + hash_kernels(prog, vsrc)), ("Matrix44", msrc, matrix_kernels(pyx)),
+                                   ("Ucs", UCS, ucs_kernels() + ucs_state_kernels(pyx)),
+                                   ("Construct", C3D, construct_kernels(pyx))):
             defs, extra = [], ""
             for lean_name, qual, params, kw in kernels:
-                d = translate(prog, path, qual, params, lean_name=lean_name, **kw)
+                try:
+                    with angle_truth():
+                        d = translate(prog, path, qual, params, lean_name=lean_name, **kw)
+                except Exception as e:  # noqa
+                    # the kernel left the translatable subset: every OTHER kernel is still regenerated from the current source
+                    # (so that no Gen file keeps definitions of an earlier tree); the missing definition breaks the theorems
+                    # that mention it, and the first such error is re-raised below (-> broken obligation "translation")
+                    failed.append((f"{twin}:{lean_name}", e))
+                    defs.append(f"-- NOT TRANSLATED from the current source: {lean_name} ({type(e).__name__}: {str(e)[:160]})\n")
+                    continue
                 defs.append(d)
+                if not d.sqrt_params and not d.trig_params:  # polynomial / decision kernel: must be corresponded EXACTLY
+                    poly.setdefault(twin, set()).add(lean_name)
                 if d.sqrt_params:
                     extra += d.sqrt_wrapper() + "\n"
             ns = f"EzdxfVerif.Gen.{mod}{suffix}"
             ctx.write_gen(f"{mod}{suffix}", lean_file(ns, defs, extra=extra), srcs[mod])
+    if failed:
+        ctx.note("kernels that left the translatable subset: " + ", ".join(n for n, _ in failed))
+        raise failed[0][1]
 
 
 # ================================================================================================ implementation side
 RULE = (
-    "correspondence X1 (exact): every generated kernel of both twins (vector ops, comparisons, isclose, factories, transform "
-    "variants incl. batch/array forms, products, chain, transpose, Cython determinant, UCS/OCS conversions) on dyadic inputs "
+    "correspondence X0 (tie audit): every kernel regenerate() translates for a twin must have been evaluated against the real "
+    "code in X1/X2 of this run, else broken.  X1 (exact): every generated kernel of both twins (vector ops, comparisons, isclose, "
+    "factories, transform variants incl. batch/array forms, products, chain, transpose, Cython determinant, UCS/OCS conversions, "
+    "UCS mutators and the regenerated method sequences through to_wcs/from_wcs, basic_transformation(angle 0)) on dyadic inputs "
     "(mantissa <= 8 bit, 9 magnitudes 2^-40..2^40, special vectors, affine/general/singular matrices) vs the Lean evaluation of "
     "Gen/*.lean: results must be EQUAL as rationals, exceptions by class.  X2 (tolerant): kernels with sqrt/trig/NumPy LU "
-    "(normalize, project, distance, axis/xyz rotation, OCS/UCS construction incl. extrusions on both sides of the 1/64 "
-    "threshold, determinant of the Python twin, inverse of both twins): |impl - model| <= stated tolerance (abs 2^-40*scale, "
-    "inverse 8ulp*kappa_inf*max|inv|); inputs within 1e-9 of a branch threshold are regenerated (decision band).  "
-    "non-trivial = input not a zero / axis-aligned / identity special case; distinct by hash of the request line.  "
-    "oracle: the laws themselves on the real code, C extension in-process, pure-Python twin by direct import and "
+    "(normalize, project, distance, magnitudes, is_parallel, axis/xyz rotation, OCS/UCS construction incl. extrusions on both sides "
+    "of the 1/64 threshold, UCS.to_ocs family, the sequences query -> mutator -> to_ocs on ONE real object, UCS.copy, the six "
+    "axis/point constructors, UCS.rotate*, frame predicates, normal_vector_3p, distance_point_line_3d, basic_transformation, "
+    "determinant of the Python twin, inverse of both twins): |impl - model| <= stated tolerance (abs 2^-36..2^-50*scale, inverse "
+    "8ulp*kappa_inf*max|inv|); inputs within 1e-9 of a branch threshold are regenerated or skipped (decision band, counted).  "
+    "X3 (UCS histories): seeded histories of 1..5 in-place mutators with queries before/between/after, executed on ONE real UCS "
+    "object and replayed step by step by the Lean state machine (Model/UcsMachine.lean); exact while the fixed-point widths of "
+    "state and arguments guarantee exact float arithmetic, relative 2^-40 after that, 2^-38 for queries that take square roots.  "
+    "non-trivial = input not a zero / axis-aligned / identity special case (X3: at least two mutators); distinct by hash of the "
+    "request line.  oracle: the laws themselves on the real code, C extension in-process, pure-Python twin by direct import and "
     "(OCS/UCS, whole-library mode) in a subprocess with EZDXF_DISABLE_C_EXT=1."
 )
 TRUSTED_BASE = [
-    "py2lean translator (harness/translate): cross-checked by the exact correspondence stream on every run",
+    "py2lean translator (harness/translate) incl. the additive extension translate/c11ext.py (truth value of an angle parameter): "
+    "cross-checked by the exact correspondence stream and the tie audit on every run",
     "np.matmul / ndarray.T / np.linalg.det / np.linalg.inv of the pure-Python twin are modelled by the textbook algebra "
-    "M44.mul/transpose/det/inv (Model/Rat3.lean); tied by correspondence only",
+    "M44.mul/transpose/det/inv (Model/Rat3.lean), also inside UCS.transform and basic_transformation of the Python linking "
+    "(Model/UcsMachine.lean stepPy, Drivers/C11.lean PyNumpy); tied by correspondence only",
     "CPython math.isclose / abs semantics (pyIsclose, pyAbs in Model/Rat3.lean); libm sin/cos/tan/sqrt enter as parameters",
     "Cython semantics of the pre-pass: `cdef double[16] a = b` copies, `cdef double *a = b` aliases, C-array attribute "
     "assignment copies, float division by zero raises ZeroDivisionError (cdivision off)",
+    "instance_attrs(): the instance state of UCS/OCS is the set of attributes assigned on `self` in the class body (AST); property "
+    "setters are not state, setattr() is rejected; state smuggled through other channels (globals, closures) is not seen",
 ]
 ASSUMPTIONS = [
     "inputs are finite doubles; NaN/inf/overflow/underflow are outside the model (rationals)",
     "rounding error of float arithmetic is bounded by the stated tolerances, not proved",
+    "square roots / sin / cos enter theorems as parameters with r*r = radicand, 0 < r (or 0 <= r), c*c + s*s = 1",
 ]
 OPEN = [
-    "np.linalg.inv singularity detection near (not at) singular matrices; float rounding bounds; angle/rotate/atan2 numerics",
+    "np.linalg.inv singularity detection near (not at) singular matrices; float rounding bounds",
+    "angle / angle_between / rotate / to_ocs_angle_* (atan2, acos) numerics: oracle only",
+    "OCS.points_to_wcs / points_from_wcs (Vec3.generate over a symbolic list is outside the translator subset): oracle batch = single",
+    "is_cartesian for non-unit frames and its negative direction (left-handed => False): correspondence only",
+    "NumPy forms of the Python twin (products, inverse, determinant, UCS.transform, basic_transformation): textbook stand-ins + correspondence",
+    "perspective matrices; linalg.py solvers (not part of the property statement)",
 ]
 
 MAGS = [-40, -20, -8, -2, 0, 2, 8, 20, 40]
@@ -289,6 +569,58 @@ def impl_value(tw: Twin, kernel: str, a: list, ucsmod=None) -> str:
         if k == "v2lt": return "ok " + _b(v2(a[0]) < v2(a[1]))
         if k == "v2isclose": return "ok " + _b(v2(a[0]).isclose(v2(a[1])))
         if k == "v2sum": return _ok(V2.sum(lst(a[0], v2)))
+        if k in ("v3ctor0", "v3ctor2", "v3ctor3", "v3ctorT2", "v3ctorT3", "v3ctorL3"):
+            x = parse_list(a[0]) if a and a[0] else []
+            return _ok({"v3ctor0": lambda: V3(), "v3ctor2": lambda: V3(x[0], x[1]), "v3ctor3": lambda: V3(x[0], x[1], x[2]),
+                        "v3ctorT2": lambda: V3((x[0], x[1])), "v3ctorT3": lambda: V3((x[0], x[1], x[2])),
+                        "v3ctorL3": lambda: V3([x[0], x[1], x[2]])}[k]())
+        if k in ("v2ctor0", "v2ctor2", "v2ctorT2", "v2ctorT3"):
+            x = parse_list(a[0]) if a and a[0] else []
+            return _ok({"v2ctor0": lambda: V2(), "v2ctor2": lambda: V2(x[0], x[1]), "v2ctorT2": lambda: V2((x[0], x[1])),
+                        "v2ctorT3": lambda: V2((x[0], x[1], x[2]))}[k]())
+        if k == "v3ctorV2": return _ok(V3(v2(a[0])))
+        if k == "v3ctorV3": return _ok(V3(v3(a[0])))
+        if k == "v2ctorV3": return _ok(V2(v3(a[0])))
+        if k == "v2ctorV2": return _ok(V2(v2(a[0])))
+        if k == "v3fromAngle": return _ok(V3.from_angle(float(Fr(a[3])), float(Fr(a[2]))))  # a = [c, s, k, angle]
+        if k == "v2fromAngle": return _ok(V2.from_angle(float(Fr(a[3])), float(Fr(a[2]))))
+        if k == "v3bool": return "ok " + _b(bool(v3(a[0])))
+        if k == "v2bool": return "ok " + _b(bool(v2(a[0])))
+        if k == "v2rmul": return _ok(float(Fr(a[1])) * v2(a[0]))
+        if k == "v3hashArg":  # the hash is the hash of this tuple
+            v = v3(a[0])
+            return _ok(v.xyz) if hash(v) == hash(tuple(float(t) for t in v.xyz)) and hash(v) == hash(V3(*v.xyz)) else "ok hash-differs"
+        if k == "v2hashArg":
+            v = v2(a[0])
+            return _ok((v.x, v.y)) if hash(v) == hash((float(v.x), float(v.y))) and hash(v) == hash(V2(v.x, v.y)) else "ok hash-differs"
+        if k == "v3truediv": return _ok(v3(a[0]) / float(Fr(a[1])))
+        if k == "v3rmul": return _ok(float(Fr(a[1])) * v3(a[0]))
+        if k == "v3radd": return _ok(tuple(parse_list(a[1])) + v3(a[0]))
+        if k == "v3reversed": return _ok(v3(a[0]).reversed())
+        if k == "v3vec2": return _ok(v3(a[0]).vec2)
+        if k == "v3xy": return _ok(v3(a[0]).xy)
+        if k == "v3mag": return _ok([v3(a[0]).magnitude])
+        if k == "v3magxy": return _ok([v3(a[0]).magnitude_xy])
+        if k == "v3normalizeL": return _ok(v3(a[0]).normalize(float(Fr(a[1]))))
+        if k == "v3isclose2": return "ok " + _b(v3(a[0]).isclose(v3(a[1]), rel_tol=float(Fr(a[2])), abs_tol=float(Fr(a[3]))))
+        if k == "v3isparallel": return "ok " + _b(v3(a[0]).is_parallel(v3(a[1])))
+        if k == "v2truediv": return _ok(v2(a[0]) / float(Fr(a[1])))
+        if k == "v2isnull": return "ok " + _b(v2(a[0]).is_null)
+        if k == "v2normalize": return _ok(v2(a[0]).normalize())
+        if k == "v2project": return _ok(v2(a[0]).project(v2(a[1])))
+        if k == "v2distance": return _ok([v2(a[0]).distance(v2(a[1]))])
+        if k in ("normal3p", "distPointLine", "basicT0", "basicT"):  # construct3d.py binds the classes of `ezdxf.math` at import
+            C = _construct3d(tw)
+            if k == "normal3p": return _ok(C.normal_vector_3p(v3(a[0]), v3(a[1]), v3(a[2])))
+            if k == "distPointLine": return _ok([C.distance_point_line_3d(v3(a[0]), v3(a[1]), v3(a[2]))])
+            if k == "basicT":  # a = [move, scale, nz, c, s, angle]
+                return _ok(C.basic_transformation(v3(a[0]), v3(a[1]), float(Fr(a[5]))))
+            return _ok(C.basic_transformation(v3(a[0]), v3(a[1]), 0))
+        if k == "get2d": return _ok(mat(a[0]).get_2d_transformation())
+        if k == "getRow": return _ok([c for i in range(4) for c in mat(a[0]).get_row(i)])
+        if k == "getCol": return _ok([c for i in range(4) for c in mat(a[0]).get_col(i)])
+        if k == "isCartesian": return "ok " + _b(mat(a[0]).is_cartesian)
+        if k == "isOrthogonal": return "ok " + _b(mat(a[0]).is_orthogonal)
         if k == "scale": return _ok(M.scale(*parse_list(a[0])))
         if k == "scaleUniform": return _ok(M.scale(float(Fr(a[0]))))
         if k == "translate": return _ok(M.translate(*parse_list(a[0])))
@@ -361,6 +693,64 @@ def impl_value(tw: Twin, kernel: str, a: list, ucsmod=None) -> str:
             if k == "ucsDirectionToWcs": return _ok(u.direction_to_wcs(v3(a[1])))
             if k == "ucsDirectionFromWcsU": return _ok(u.direction_from_wcs(v3(a[1])))
             return _ok([c for v in u.points_to_wcs(lst(a[1], v3)) for c in v])
+        # ---- session 3: UCS as a state machine; every sequence runs on ONE real object
+        if k in STATE_KERNELS:
+            def ucs_of(ms):
+                u = U.UCS()
+                u.matrix = mat(ms)
+                return u
+            if k == "ocsSeqRoundtrip":
+                o = U.OCS()
+                o.transform = a[0] == "T"
+                o.matrix = mat(a[1])
+                return _ok(o.to_wcs(o.from_wcs(v3(a[2]))))
+            if k in FROM_AXIS:
+                return _ok(getattr(U.UCS, FROM_AXIS[k])(v3(a[0]), v3(a[1]), v3(a[2])).matrix)
+            u = ucs_of(a[0])
+            if k == "ucsIsCartesian": return "ok " + _b(u.is_cartesian)
+            if k in ("ucsRotateLocalX", "ucsRotateLocalY", "ucsRotateLocalZ"):  # a = [m, c, s, angle]
+                return _ok(getattr(u, "rotate_local_" + k[-1].lower())(float(Fr(a[3]))).matrix)
+            if k == "ucsRotate": return _ok(u.rotate(v3(a[1]), float(Fr(a[4]))).matrix)  # a = [m, axis, c, s, angle]
+            if k == "ucsTransformU": return _ok(u.transform(mat(a[1])).matrix)
+            if k == "ucsShift": return _ok(u.shift(v3(a[1])).matrix)
+            if k == "ucsMoveto": return _ok(u.moveto(v3(a[1])).matrix)
+            if k == "ucsCopy": return _ok(u.copy().matrix)
+            if k == "ucsToOcs": return _ok(u.to_ocs(v3(a[1])))
+            if k == "ucsDirToOcs": return _ok(u.ucs_direction_to_ocs_direction(v3(a[1])))
+            if k == "ucsPointsToOcs": return _ok([c for v in u.points_to_ocs(lst(a[1], v3)) for c in v])
+            if k == "ucsPointsFromWcs": return _ok([c for v in u.points_from_wcs(lst(a[1], v3)) for c in v])
+            if k == "ucsAxes": return _ok(list(u.ux) + list(u.uy) + list(u.uz) + list(u.origin))
+            if k == "ucsWcsFrame":  # the state after the square-root-free queries (frame condition, exact)
+                p = v3(a[1])
+                u.to_wcs(p); u.from_wcs(p); u.direction_to_wcs(p); u.direction_from_wcs(p)
+                return _ok(u.matrix)
+            if k == "ucsFrames":  # the state after the queries (frame condition)
+                p = v3(a[1])
+                u.to_wcs(p); u.from_wcs(p); u.direction_to_wcs(p); u.direction_from_wcs(p)
+                m1 = list(u.matrix)
+                u.to_ocs(p)
+                return _ok(m1 + list(u.matrix))
+            if k == "ucsSeqShiftToOcs":
+                u.to_ocs(v3(a[1]))
+                return _ok(u.shift(v3(a[2])).to_ocs(v3(a[3])))
+            if k == "ucsSeqMovetoToOcs":
+                u.to_ocs(v3(a[1]))
+                return _ok(u.moveto(v3(a[2])).to_ocs(v3(a[3])))
+            if k == "ucsSeqShiftToWcs":
+                u.to_wcs(v3(a[1])); u.from_wcs(v3(a[1]))
+                return _ok(u.shift(v3(a[2])).to_wcs(v3(a[3])))
+            if k == "ucsSeqTransformToOcs":
+                u.to_ocs(v3(a[1]))
+                return _ok(u.transform(mat(a[2])).to_ocs(v3(a[3])))
+            if k == "ucsSeqTransformDirToOcs":
+                u.ucs_direction_to_ocs_direction(v3(a[1]))
+                return _ok(u.transform(mat(a[2])).ucs_direction_to_ocs_direction(v3(a[3])))
+            if k == "ucsSeqTransformToWcs":
+                u.to_wcs(v3(a[1]))
+                return _ok(u.transform(mat(a[2])).to_wcs(v3(a[3])))
+            if k == "ucsSeqTransformFromWcs":
+                u.from_wcs(v3(a[1]))
+                return _ok(u.transform(mat(a[2])).from_wcs(v3(a[3])))
         raise KeyError(kernel)
     except ZeroDivisionError:
         return "err ZeroDivisionError"
@@ -368,10 +758,40 @@ def impl_value(tw: Twin, kernel: str, a: list, ucsmod=None) -> str:
         return "err " + type(e).__name__
 
 
-UCS_KERNELS = {"ocsInit", "ocsFromWcs", "ocsToWcs", "ocsAxes", "ucsInitXYZ", "ucsInitXY", "ucsInitXZ", "ucsInitYZ",
+FROM_AXIS = {"ucsFromXaxisXY": "from_x_axis_and_point_in_xy", "ucsFromXaxisXZ": "from_x_axis_and_point_in_xz",
+             "ucsFromYaxisXY": "from_y_axis_and_point_in_xy", "ucsFromYaxisYZ": "from_y_axis_and_point_in_yz",
+             "ucsFromZaxisXZ": "from_z_axis_and_point_in_xz", "ucsFromZaxisYZ": "from_z_axis_and_point_in_yz"}
+STATE_KERNELS = set(FROM_AXIS) | {"ucsIsCartesian", "ucsRotateLocalX", "ucsRotateLocalY", "ucsRotateLocalZ", "ucsRotate",
+                 "ucsTransformU", "ucsShift", "ucsMoveto", "ucsCopy", "ucsToOcs", "ucsDirToOcs", "ucsPointsToOcs",
+                 "ucsPointsFromWcs", "ucsAxes", "ucsFrames", "ucsWcsFrame", "ucsSeqShiftToOcs", "ucsSeqMovetoToOcs", "ucsSeqShiftToWcs",
+                 "ocsSeqRoundtrip", "ucsSeqTransformToOcs", "ucsSeqTransformDirToOcs", "ucsSeqTransformToWcs",
+                 "ucsSeqTransformFromWcs"}
+def _construct3d(tw):
+    """math/construct3d.py running on the classes of twin `tw`: the module takes Vec3/Matrix44 from `ezdxf.math` (the C
+    extension when available); for the pure-Python twin in a process with C extensions a private copy of the module is
+    executed with the Python classes bound instead (same source text)"""
+    import ezdxf.math.construct3d as C
+    if C.Vec3 is tw.V3:
+        return C
+    cache = _construct3d.__dict__.setdefault("cache", {})
+    if tw.name not in cache:
+        import types
+        mod = types.ModuleType("construct3d_" + tw.name)
+        src = open(C.__file__).read()
+        mod.__dict__["__file__"] = C.__file__
+        mod.__dict__["__package__"] = "ezdxf.math"
+        mod.__dict__["__name__"] = "ezdxf.math.construct3d_" + tw.name
+        exec(compile(src, C.__file__, "exec"), mod.__dict__)
+        mod.Vec3, mod.Matrix44 = tw.V3, tw.M
+        mod.Vec2 = tw.V2
+        cache[tw.name] = mod
+    return cache[tw.name]
+
+
+UCS_KERNELS = STATE_KERNELS | {"ocsInit", "ocsFromWcs", "ocsToWcs", "ocsAxes", "ucsInitXYZ", "ucsInitXY", "ucsInitXZ", "ucsInitYZ",
                "ucsToWcs", "ucsFromWcs", "ucsDirectionToWcs", "ucsDirectionFromWcsU", "ucsPointsToWcs"}
 # arguments that are only for the implementation (angle next to its cos/sin), dropped from the Lean request
-IMPL_ONLY_ARGS = {"xRotate": 1, "yRotate": 1, "zRotate": 1, "axisRotate": 1, "xyzRotate": 1, "shearXY": 1}
+IMPL_ONLY_ARGS = {"basicT": 1, "ucsRotateLocalX": 1, "ucsRotateLocalY": 1, "ucsRotateLocalZ": 1, "ucsRotate": 1, "xRotate": 1, "yRotate": 1, "zRotate": 1, "axisRotate": 1, "xyzRotate": 1, "shearXY": 1}
 
 
 def pure_python_worker(lines: list) -> list:
@@ -416,6 +836,9 @@ def _worker_main():
         if kind == "k":  # kernel request: k|kernel|args...
             parts = rest.split("|")
             print(impl_value(tw, parts[0], parts[1:], U))
+        elif kind == "h":  # UCS history: h|json plan -> the Lean request body with the implementation's values filled in
+            import json
+            print(run_history(tw, U, json.loads(rest)))
         elif kind == "o":  # oracle request: o|name|json
             import json
             name, payload = rest.split("|", 1)
@@ -642,6 +1065,37 @@ def exact_cases(ctx, twin: str):
         w[i] = Fr(float(w[i] * (1 + rel) + r.choice([-1, 1]) * ab))
         yield "v3isclose", [frs(base), frs(w)], None, True
         yield "v2isclose", [frs(base[:2]), frs(w[:2])], None, True
+        for kn, vals in (("v3ctor0", []), ("v3ctor2", a[:2]), ("v3ctor3", a), ("v3ctorT2", a[:2]), ("v3ctorT3", a), ("v3ctorL3", a),
+                         ("v2ctor0", []), ("v2ctor2", a[:2]), ("v2ctorT2", a[:2]), ("v2ctorT3", a)):
+            yield kn, [frs(vals)], None, _nz(vals) if vals else False
+        yield "v3hashArg", [frs(a)], None, _nz(a)
+        yield "v2hashArg", [frs(p)], None, _nz(p)
+        yield "v3ctorV2", [frs(p)], None, _nz(p)
+        yield "v3ctorV3", [frs(a)], None, _nz(a)
+        yield "v2ctorV3", [frs(a)], None, _nz(a)
+        yield "v2ctorV2", [frs(p)], None, _nz(p)
+        # session 3 kernels: reflected operators, division (exact for powers of two), accessors, explicit tolerances
+        k2 = Fr(2) ** r.choice([-3, -1, 0, 1, 4]) * r.choice([-1, 1])
+        yield "v3truediv", [frs(a), fr(r.choice([k2, k2, Fr(0)]))], None, _nz(a)
+        yield "v2truediv", [frs(p), fr(r.choice([k2, k2, Fr(0)]))], None, _nz(p)
+        yield "v3rmul", [frs(a), fr(g.dy(r.choice([-3, 0, 3])))], None, _nz(a)
+        yield "v3radd", [frs(a), frs(b)], None, nt
+        yield "v3reversed", [frs(a)], None, _nz(a)
+        yield "v3vec2", [frs(a)], None, _nz(a)
+        yield "v3xy", [frs(a)], None, _nz(a)
+        nearnull3 = r.choice([a, (0, 0, 0), (Fr(1, 10**12), 0, 0), (Fr(1, 10**13), Fr(-1, 10**13), 0), (0, 0, Fr(1001, 10**15)),
+                              (0, Fr(999, 10**15), 0)])
+        nearnull2 = r.choice([p, (0, 0), (Fr(1, 10**12), 0), (Fr(1, 10**13), Fr(-1, 10**13)), (0, Fr(1001, 10**15)), (Fr(999, 10**15), 0)])
+        yield "v3bool", [frs(nearnull3)], None, True
+        yield "v2bool", [frs(nearnull2)], None, True
+        yield "v2rmul", [frs(p), fr(g.dy(0))], None, _nz(p)
+        yield "v2isnull", [frs(r.choice([p, (0, 0), (Fr(1, 10**12), 0), (Fr(1, 10**13), Fr(-1, 10**13)), (0, Fr(1001, 10**15)),
+                                         (Fr(999, 10**15), 0)]))], None, True
+        rt = r.choice([Fr(1, 2**10), Fr(1, 2**20), Fr(1, 10**9), Fr(0)])
+        at = r.choice([Fr(0), Fr(1, 2**30), Fr(1, 10**12)])
+        w2 = list(base)
+        w2[i] = Fr(float(w2[i] * (1 + rt * r.choice([Fr(1, 2), Fr(9, 10), Fr(11, 10), Fr(2)])) + r.choice([-1, 1]) * at * r.choice([Fr(1, 2), Fr(3, 2)])))
+        yield "v3isclose2", [frs(base), frs(w2), fr(rt), fr(at)], None, True
         vs = [g.v3(e) for _ in range(r.randint(0, 6))]
         yield "v3sum", [";".join(frs(v) for v in vs)], None, len(vs) > 1
         ps = [g.v2(e) for _ in range(r.randint(0, 6))]
@@ -661,6 +1115,8 @@ def exact_cases(ctx, twin: str):
         ps = [g.v2(e) for _ in range(r.randint(0, 5))]
         yield "fast2d", [ms, ";".join(frs(t) for t in ps)], None, len(ps) > 0
         yield "axes", [ms], None, True
+        for kn in ("get2d", "getRow", "getCol"):
+            yield kn, [ms], None, True
         yield "copy", [ms], None, True
         yield "transpose", [ms], None, True
         o = g.matrix()
@@ -668,6 +1124,8 @@ def exact_cases(ctx, twin: str):
             yield k, [ms, frs(o)], None, True
         if twin == "pyx":
             yield "determinant", [ms], None, True  # explicit 24-term polynomial: exact on short dyadics
+            # explicit adjugate formulas: bit-exact for integer matrices with determinant +-1, exact error class for singular ones
+            yield "inverse", [frs(g.unimodular() if r.random() < 0.8 else g.singular())], None, True
         yield "imulSelf", [ms], None, True
         chain = [g.affine(0, 3) if r.random() < 0.8 else g.general(3) for _ in range(r.randint(0, 4))]
         yield "chain", [";".join(frs(c) for c in chain)], None, len(chain) > 1
@@ -683,6 +1141,8 @@ def exact_cases(ctx, twin: str):
         yield "translate", [frs(g.v3(e))], None, True
         yield "ucs", [frs(g.v3(0)), frs(g.v3(0)), frs(g.v3(0)), frs(g.v3(e))], None, True
         yield "from2d", [frs([g.dy(0) for _ in range(6)])], None, True
+        mv = r.choice([g.v3(e), (0, 0, 0), (Fr(1, 10**13), 0, Fr(-1, 10**13)), (0, Fr(1, 10**11), 0)])
+        yield "basicT0", [frs(mv), frs(s3)], None, True
         ang = r.choice([0.0, 0.5, 1.0, -2.0, 3.0, math.pi / 2, math.pi, -math.pi / 3, 1e-9, 100.0, r.uniform(-7, 7)])
         c, s = Fr(math.cos(ang)), Fr(math.sin(ang))
         for k in ("xRotate", "yRotate", "zRotate"):
@@ -697,6 +1157,18 @@ def exact_cases(ctx, twin: str):
         for k in ("ucsToWcs", "ucsFromWcs", "ucsDirectionToWcs", "ucsDirectionFromWcsU"):
             yield k, [ms, frs(v)], None, nt
         yield "ucsPointsToWcs", [ms, ";".join(frs(t_) for t_ in vs)], None, len(vs) > 0
+        # session 3: mutators and regenerated method sequences of the UCS object (one real object per case)
+        q, d = g.v3(e), g.v3(e)
+        yield "ucsTransformU", [ms, frs(o)], None, True
+        yield "ucsShift", [ms, frs(d)], None, _nz(d)
+        yield "ucsMoveto", [ms, frs(d)], None, _nz(d)
+        yield "ucsAxes", [ms], None, True
+        yield "ucsWcsFrame", [ms, frs(v)], None, True
+        yield "ucsPointsFromWcs", [ms, ";".join(frs(t_) for t_ in vs)], None, len(vs) > 0
+        yield "ucsSeqShiftToWcs", [ms, frs(q), frs(d), frs(v)], None, nt
+        yield "ucsSeqTransformToWcs", [ms, frs(q), frs(o), frs(v)], None, nt
+        yield "ucsSeqTransformFromWcs", [ms, frs(q), frs(o), frs(v)], None, nt
+        yield "ocsSeqRoundtrip", [t, ms, frs(v)], None, nt
 
 
 def _tolrel(k: int, floor) -> str:
@@ -717,6 +1189,51 @@ def tolerant_cases(ctx, twin: str):
         m = g.matrix()
         v = g.v3(0)
         yield "transformDirectionN", [frs(m), frs(v)], None, _tolrel(42, Fr(1, 4)), _nz(v)
+        # session 3
+        ang = r.choice([0.0, math.pi / 2, -1.0, r.uniform(-7, 7)])
+        kl = g.dy(r.choice([-3, 0, 3]), 6)
+        la = [fr(Fr(math.cos(ang))), fr(Fr(math.sin(ang))), fr(kl)]
+        yield "v3fromAngle", la, la + [fr(ang)], _tolrel(50, Fr(0)), kl != 0
+        yield "v2fromAngle", la, la + [fr(ang)], _tolrel(50, Fr(0)), kl != 0
+        yield "v3mag", [frs(a)], None, _tolrel(50, Fr(0)), _nz(a)
+        yield "v3magxy", [frs(a)], None, _tolrel(50, Fr(0)), _nz(a)
+        ln = r.choice([Fr(1), Fr(3), g.dy(0, 5), Fr(-2), Fr(0)])
+        yield "v3normalizeL", [frs(a), fr(ln)], None, _tolrel(44, max(abs(ln), Fr(1, 2**60)) / 4), _nz(a)
+        kk = g.dy(r.choice([-3, 0, 3]), 6)
+        yield "v3truediv", [frs(a), fr(kk)], None, _tolrel(50, amax / max(abs(kk), Fr(1, 2**60))), _nz(a) and kk != 0
+        p2, q2 = g.v2(e), g.v2(e)
+        yield "v2normalize", [frs(p2)], None, _tolrel(44, Fr(1, 4)), _nz(p2)
+        yield "v2project", [frs(p2), frs(q2)], None, _tolrel(42, max([abs(x) for x in p2 + q2] + [Fr(1, 2**60)])), _nz(p2) and _nz(q2)
+        yield "v2distance", [frs(p2), frs(q2)], None, _tolrel(44, max([abs(x) for x in p2 + q2] + [Fr(1, 2**60)])), _nz(p2)
+        # is_parallel: exactly parallel / anti-parallel, clearly not parallel, null operands; the band of relative
+        # deviations 1e-12 .. 1e-6 (where float normalisation decides) is not generated
+        c = r.random()
+        if c < 0.35:
+            kpar = g.dy(r.choice([-3, 0, 3]), 6, nonzero=True)
+            bb = tuple(x * kpar for x in a)
+        elif c < 0.45:
+            bb = r.choice([(0, 0, 0), a])
+        else:
+            bb = b
+            j = r.randrange(3)
+            if any(a) and any(bb) and _angle_small(a, bb):
+                bb = tuple(x + (amax if i_ == j else 0) for i_, x in enumerate(bb))
+        if not (any(a) and any(bb) and not _parallel_exact(a, bb) and _angle_small(a, bb)):
+            yield "v3isparallel", [frs(a), frs(bb)], None, "abs:0", _nz(a)
+        # construct3d helpers
+        cc = g.v3(e)
+        sc3 = max([abs(x) for x in a + b + cc] + [Fr(1, 2**60)])
+        nrm = _cross(tuple(y - x for x, y in zip(a, b)), tuple(y - x for x, y in zip(a, cc)))
+        if not any(nrm) or max(abs(x) for x in nrm) > sc3 * sc3 / 2**20:  # not nearly collinear (ill-conditioned direction)
+            yield "normal3p", [frs(a), frs(b), frs(cc)], None, _tolrel(40, Fr(1, 4)), any(nrm)
+        ang = r.choice([0.0, 0.0, math.pi / 2, -1.0, r.uniform(-7, 7)])
+        csn = [fr(Fr(math.cos(ang))), fr(Fr(math.sin(ang)))]
+        mv = r.choice([a, a, (0, 0, 0), (Fr(1, 10**13), 0, 0)])
+        sc_ = g.v3(0, special=False)
+        la = [frs(mv), frs(sc_), _b(ang != 0.0)] + csn
+        yield "basicT", la, la + [fr(ang)], _tolrel(44, max([abs(x) for x in list(mv) + list(sc_)] + [Fr(1, 4)])), True
+        if a == b or max(abs(x - y) for x, y in zip(a, b)) > sc3 / 2**20:
+            yield "distPointLine", [frs(cc), frs(a), frs(b)], None, f"abs:{fr(sc3 / 2**18)}", a != b
     for _ in range(ctx.n(150, 3000)):
         # rotations: exact Pythagorean (c, s) on the model side, their float images on the implementation side
         if r.random() < 0.5:
@@ -750,12 +1267,95 @@ def tolerant_cases(ctx, twin: str):
         yield "ucsInitXY", [frs(o), frs(x), frs(y)], None, _tolrel(40, fl), True
         yield "ucsInitXZ", [frs(o), frs(x), frs(z)], None, _tolrel(40, fl), True
         yield "ucsInitYZ", [frs(o), frs(y), frs(z)], None, _tolrel(40, fl), True
+    # session 3: the sqrt-taking UCS queries and the regenerated sequences query -> mutator -> query on one object
+    for _ in range(ctx.n(200, 4000)):
+        m = g.affine(r.choice([-8, 0, 0, 8])) if r.random() < 0.8 else g.general()
+        c = r.random()
+        if c < 0.3:  # z-axis row on both sides of the arbitrary-axis threshold
+            m[8:11] = [Fr(r.choice([-3, -1, 0, 1, 2])), Fr(r.choice([-2, 0, 1, 3])), Fr(r.choice([-200, -90, 64, 70, 128, 190]))]
+        elif c < 0.4:
+            m[8:11] = [Fr(0), Fr(0), Fr(r.choice([1, -1, 4]))]
+        o = g.affine(0, 3) if r.random() < 0.6 else g.unimodular()
+        uz2 = [sum(m[8 + k] * o[4 * k + j] for k in range(4)) for j in range(3)]
+        if ocs_band(_fl(m[8:11])) or ocs_band(_fl(uz2)):
+            continue
+        q, p, d = g.v3(0), g.v3(0), g.v3(r.choice([-8, 0, 8]))
+        ms, os_ = frs(m), frs(o)
+        mo = [sum(m[4 * i + k] * o[4 * k + j] for k in range(4)) for i in range(4) for j in range(4)]
+
+        def fl(mm, pp, extra=()):
+            return max([abs(x) for x in mm[:12]] + [Fr(1, 4)]) * max([abs(x) for x in pp] + [Fr(1)]) * 4 + \
+                max([abs(x) for x in list(mm[12:15]) + list(extra)])
+        nt = _nz(p) and any(m[8:10])
+        yield "ucsToOcs", [ms, frs(p)], None, _tolrel(38, fl(m, p)), nt
+        yield "ucsDirToOcs", [ms, frs(p)], None, _tolrel(38, fl(m, p)), nt
+        ps = [g.v3(0) for _ in range(r.randint(0, 3))]
+        yield "ucsPointsToOcs", [ms, ";".join(frs(t_) for t_ in ps)], None, _tolrel(38, fl(m, [x for t_ in ps for x in t_])), len(ps) > 0
+        yield "ucsCopy", [ms], None, _tolrel(44, max([abs(x) for x in m[12:15]] + [Fr(1, 4)])), True
+        yield "ucsFrames", [ms, frs(p)], None, "abs:0", True
+        yield "ucsSeqShiftToOcs", [ms, frs(q), frs(d), frs(p)], None, _tolrel(38, fl(m, p, d)), nt
+        yield "ucsSeqMovetoToOcs", [ms, frs(q), frs(d), frs(p)], None, _tolrel(38, fl(m, p, d)), nt
+        yield "ucsSeqTransformToOcs", [ms, frs(q), os_, frs(p)], None, _tolrel(38, fl(mo, p)), nt
+        yield "ucsSeqTransformDirToOcs", [ms, frs(q), os_, frs(p)], None, _tolrel(38, fl(mo, p)), nt
+    # session 3: frame predicates, the six axis/point constructors and the rotations that return new UCS objects
+    FR = [((1, 2, 2), (2, 1, -2), (2, -2, 1)), ((2, 3, 6), (3, -6, 2), (6, 2, -3)), ((3, 4, 0), (-4, 3, 0), (0, 0, 5)),
+          ((1, 0, 0), (0, 1, 0), (0, 0, 1)), ((0, 1, 0), (0, 0, 1), (1, 0, 0)), ((1, 4, 8), (4, 7, -4), (8, -4, 1))]
+    for _ in range(ctx.n(150, 3000)):
+        rows = [list(map(Fr, t_)) for t_ in r.choice(FR)]
+        det3 = sum(rows[0][i] * _cross(rows[1], rows[2])[i] for i in range(3))
+        c = r.random()
+        kind = "orthogonal"
+        if c < 0.25:  # flip one axis: left handed
+            j = r.randrange(3)
+            rows[j] = [-x for x in rows[j]]
+        elif c < 0.5:  # clearly skewed
+            j, i_ = r.sample(range(3), 2)
+            rows[j] = [x + y * r.choice([Fr(1, 8), Fr(1), Fr(-1, 2)]) for x, y in zip(rows[j], rows[i_])]
+            kind = "skew"
+        elif c < 0.55:
+            rows[r.randrange(3)] = [Fr(0)] * 3
+            kind = "null-axis"
+        ks = [g.dy(r.choice([-8, 0, 8]), 4, nonzero=True) for _ in range(3)]
+        if r.random() < 0.5:
+            ks = [abs(x) for x in ks]
+        rows = [[x * ks[i] for x in rows[i]] for i in range(3)]
+        m = rows[0] + [Fr(0)] + rows[1] + [Fr(0)] + rows[2] + [Fr(0)] + list(g.v3(0)) + [Fr(1)]
+        ctx.hist("X2 tolerant kernels", "frame:" + kind)
+        yield "isCartesian", [frs(m)], None, "abs:0", True
+        yield "isOrthogonal", [frs(m)], None, "abs:0", True
+        yield "ucsIsCartesian", [frs(m)], None, "abs:0", True
+        # rotations of a UCS with these axes (any frame: the constructors normalise)
+        ang = r.choice([0.0, math.pi / 2, r.uniform(-7, 7), r.uniform(-3, 3)])
+        cs = [fr(Fr(math.cos(ang))), fr(Fr(math.sin(ang)))]
+        fl_ = max([abs(x) for x in m[12:15]] + [Fr(1, 4)])
+        if kind != "null-axis" or r.random() < 0.3:
+            for kname in ("ucsRotateLocalX", "ucsRotateLocalY", "ucsRotateLocalZ"):
+                yield kname, [frs(m)] + cs, [frs(m)] + cs + [fr(ang)], _tolrel(40, fl_), kind != "null-axis"
+            axis = g.v3(r.choice([-8, 0, 8]))
+            yield "ucsRotate", [frs(m), frs(axis)] + cs, [frs(m), frs(axis)] + cs + [fr(ang)], _tolrel(40, fl_), _nz(axis)
+        # axis / point constructors: generic, degenerate (point on the axis -> ZeroDivisionError), axis-aligned
+        o, ax_ = g.v3(r.choice([-8, 0, 8])), g.v3(0)
+        c = r.random()
+        if c < 0.1:
+            pt = tuple(x + y * 3 for x, y in zip(o, ax_))  # on the axis line: the plane is undefined
+        else:
+            pt = tuple(x + y for x, y in zip(o, g.v3(0)))
+        w = tuple(y - x for x, y in zip(o, pt))
+        cr = _cross(ax_, w)
+        if any(cr) and max(abs(x) for x in cr) * 2**16 < max([abs(x) for x in ax_]) * max([abs(x) for x in w]):
+            continue  # nearly degenerate plane: direction ill-conditioned
+        for kname in FROM_AXIS:
+            yield kname, [frs(o), frs(ax_), frs(pt)], None, _tolrel(36, max([abs(x) for x in o] + [Fr(1, 4)])), any(cr)
     for _ in range(ctx.n(400, 6000)):
         c = r.random()
         m = g.unimodular() if c < 0.3 else g.wellcond() if c < 0.7 else g.singular() if c < 0.85 else g.affine(0, 4)
         if r.random() < 0.3:  # overall magnitude
             sc = Fr(2) ** r.choice([-20, -6, 6, 20])
             m = [x * sc for x in m]
+        if r.random() < 0.15:  # homogeneous scaling: last column (0, 0, 0, w) with w != 1 (an "affine-looking" matrix that is not)
+            m = list(m)
+            m[3] = m[7] = m[11] = Fr(0)
+            m[15] = Fr(r.choice([2, -1, -4])) if r.random() < 0.6 else Fr(1, r.choice([2, 8, -2]))
         det_exact = _det(m)
         singular = det_exact == 0
         if twin == "py":  # np.linalg.det: LU with rounding
@@ -764,6 +1364,20 @@ def tolerant_cases(ctx, twin: str):
             ctx.hist("X2 tolerant kernels", "py-inverse-singular-not-detected-by-LU(skipped)")
             continue
         yield "inverse", [frs(m)], None, f"kappa:{P2(49)}", not singular
+
+
+def _cross(a, b):
+    return (a[1] * b[2] - a[2] * b[1], a[2] * b[0] - a[0] * b[2], a[0] * b[1] - a[1] * b[0])
+
+
+def _parallel_exact(a, b) -> bool:
+    return not any(_cross(a, b))
+
+
+def _angle_small(a, b) -> bool:
+    """sin^2 of the angle between a and b below 1e-10 (relative deviation below 1e-5): inside or near the decision band"""
+    c = _cross(a, b)
+    return sum(x * x for x in c) * 10**10 < sum(x * x for x in a) * sum(x * x for x in b)
 
 
 def _det(m):
@@ -812,6 +1426,317 @@ def _impl_lines(twins, cases_by_twin, ucsmod):
     return out
 
 
+# ------------------------------------------------------------------------------------------------ X3: UCS histories
+HIST_EXACT = {"ucsToWcs", "ucsFromWcs", "ucsDirectionToWcs", "ucsDirectionFromWcsU", "ucsPointsToWcs", "ucsPointsFromWcs",
+              "ucsAxes", "copy"}
+HIST_SQRT = {"ucsToOcs", "ucsDirToOcs", "ucsPointsToOcs", "ucsCopy"}
+
+
+def _fxmg(vals):
+    """(fractional bits, integer bits) needed to write all finite floats in vals in fixed point"""
+    fx = mg = 0
+    for v in vals:
+        f = Fr(float(v))
+        fx = max(fx, f.denominator.bit_length() - 1)
+        mg = max(mg, abs(f.numerator // f.denominator).bit_length())
+    return fx, mg
+
+
+def run_history(tw: Twin, U, plan: dict) -> str:
+    """execute a planned history on ONE real UCS object; returns the body of the Lean request (`m0|step|step...`).
+    plan = {"m0": "<16 rationals>", "steps": [["tr", m] | ["sh", d] | ["mv", o] | ["q", kernel, [args...]]]}
+    A query is recorded with the value the implementation returned and the tolerance that value has to meet:
+    exact (abs:0) while every float operation so far was exact (fixed-point width of state and arguments small enough
+    that + - * cannot round), relative 2^-40 otherwise, 2^-38 for the kernels that take square roots.  Queries through
+    `OCS(uz)` are dropped when the current z-axis is null or inside a decision band of OCS.__init__ (counted)."""
+    V3, M = tw.V3, tw.M
+    v3 = lambda t: V3(*parse_list(t))
+    u = U.UCS()
+    u.matrix = M(parse_list(plan["m0"]))
+    out = [plan["m0"]]
+    exact = True
+    dropped = 0
+    for st in plan["steps"]:
+        state = list(u.matrix)
+        sfx, smg = _fxmg(state)
+        if st[0] == "fk":  # aliasing: mutate a COPY in every way; the original object must not notice
+            if any(not any(rw) for rw in (state[0:3], state[4:7], state[8:11])):
+                continue  # copy() of a UCS with a null axis raises: not part of the histories
+            try:
+                v = u.copy()
+            except (ZeroDivisionError, OverflowError):
+                continue
+            v.transform(M([1.0, 2.0, 0.0, 0.0, -2.0, 1.0, 0.0, 0.0, 0.0, 0.0, 3.0, 0.0, 5.0, 6.0, 7.0, 1.0]))
+            v.shift((1.0, 2.0, 3.0))
+            v.moveto((9.0, 9.0, 9.0))
+            v.matrix *= M.scale(2.0)
+            out.append("fk~")
+            continue
+        if st[0] in ("cp", "rx", "ry", "rz"):  # continue the history on the NEW object (copy / local rotation)
+            rows = [state[0:3], state[4:7], state[8:11]]
+            if any(not any(rw) for rw in rows) or any(abs(t) > 1e100 for rw in rows for t in rw):
+                continue  # a null axis raises in the constructor: not part of the histories
+            n2 = [sum(t * t for t in rw) for rw in rows]
+            if max(n2) > 2.0 ** 80 * min(n2):
+                continue
+            if st[0] == "cp":
+                u = u.copy()
+                out.append("cp~")
+            else:
+                ang = float(Fr(st[2]))
+                try:
+                    u = getattr(u, "rotate_local_" + st[0][1])(ang)
+                except ZeroDivisionError:
+                    continue
+                out.append(st[0] + "~" + st[1])
+            exact = False
+            continue
+        if st[0] in ("tr", "sh", "mv"):
+            arg = parse_list(st[1])
+            afx, amg = _fxmg(arg)
+            if st[0] == "tr":
+                exact = exact and (sfx + afx + smg + amg + 4 <= 53)
+                u.transform(M(arg))
+            elif st[0] == "sh":
+                exact = exact and (max(sfx, afx) + max(smg, amg) + 2 <= 53)
+                u.shift(V3(*arg))
+            else:
+                u.moveto(V3(*arg))
+            out.append(st[0] + "~" + st[1])
+            continue
+        _, kernel, args = st
+        if kernel in HIST_SQRT and kernel != "ucsCopy":
+            uz = tuple(u.uz)
+            if not any(uz) or ocs_band(uz) or any(abs(t) > 1e100 for t in uz):
+                dropped += 1
+                continue
+        pts = [c for t in args for part in t.split(";") if part for c in parse_list(part)]
+        afx, amg = _fxmg(pts)
+        try:
+            if kernel == "ucsToWcs": val = list(u.to_wcs(v3(args[0])))
+            elif kernel == "ucsFromWcs": val = list(u.from_wcs(v3(args[0])))
+            elif kernel == "ucsDirectionToWcs": val = list(u.direction_to_wcs(v3(args[0])))
+            elif kernel == "ucsDirectionFromWcsU": val = list(u.direction_from_wcs(v3(args[0])))
+            elif kernel == "ucsPointsToWcs": val = [c for v in u.points_to_wcs([v3(t) for t in args[0].split(";")]) for c in v]
+            elif kernel == "ucsPointsFromWcs": val = [c for v in u.points_from_wcs([v3(t) for t in args[0].split(";")]) for c in v]
+            elif kernel == "ucsAxes": val = list(u.ux) + list(u.uy) + list(u.uz) + list(u.origin)
+            elif kernel == "copy": val = list(u.matrix)
+            elif kernel == "ucsToOcs": val = list(u.to_ocs(v3(args[0])))
+            elif kernel == "ucsDirToOcs": val = list(u.ucs_direction_to_ocs_direction(v3(args[0])))
+            elif kernel == "ucsPointsToOcs": val = [c for v in u.points_to_ocs([v3(t) for t in args[0].split(";")]) for c in v]
+            elif kernel == "ucsCopy": val = list(u.copy().matrix)
+            else: raise KeyError(kernel)
+            res = _ok(val)
+            big = max([abs(float(x)) for x in val] + [0.25])
+        except ZeroDivisionError:
+            res, big = "err ZeroDivisionError", 1.0
+        if kernel in HIST_SQRT:
+            w = max([abs(x) for x in state[:12]] + [0.25]) * max([abs(x) for x in pts] + [1.0]) * 4 + max(abs(x) for x in state[12:15])
+            tol = _tolrel(38, max(big, w if kernel != "ucsCopy" else big))
+        elif exact and (max(sfx, afx) * 2 + max(smg, amg) * 2 + 6 <= 53):
+            tol = "abs:0"
+        else:
+            tol = _tolrel(40, big)
+        out.append("q~" + kernel + "~" + ";;".join(args) + "~" + res + "~" + tol)
+    return "|".join(out) + f"#{dropped}"
+
+
+def history_plans(ctx, twin: str):
+    """seeded histories: start state, 1..5 in-place mutators, queries before, between and after them"""
+    g = G(ctx.rng(f"hist/{twin}"))
+    r = g.r
+    I = lambda lo=-4, hi=4: Fr(r.randint(lo, hi))
+    H = lambda: Fr(r.randint(-8, 8), r.choice([1, 1, 2, 4]))
+    perms = [((1, 0, 0), (0, 1, 0), (0, 0, 1)), ((0, 1, 0), (-1, 0, 0), (0, 0, 1)), ((1, 0, 0), (0, 0, 1), (0, -1, 0)),
+             ((0, 0, 1), (0, 1, 0), (-1, 0, 0)), ((0, 1, 0), (0, 0, 1), (1, 0, 0)), ((-1, 0, 0), (0, -1, 0), (0, 0, 1)),
+             ((1, 0, 0), (0, -1, 0), (0, 0, -1)), ((0, 0, -1), (0, -1, 0), (-1, 0, 0))]
+    frames = [((1, 2, 2), (2, 1, -2), (2, -2, 1)), ((2, 3, 6), (3, -6, 2), (6, 2, -3)), ((3, 4, 0), (-4, 3, 0), (0, 0, 5)),
+              ((1, 4, 8), (4, 7, -4), (8, -4, 1))]
+
+    def mat3(rows, org, col4=(0, 0, 0, 1)):
+        m = []
+        for i in range(3):
+            m += [Fr(x) for x in rows[i]] + [Fr(col4[i])]
+        return m + [Fr(x) for x in org] + [Fr(col4[3])]
+
+    def start():
+        c = r.random()
+        org = (H(), H(), H())
+        if c < 0.3:
+            return mat3(r.choice(perms), org)
+        if c < 0.5:
+            return mat3(r.choice(frames), org)
+        if c < 0.7:  # z-axis close to +-Z, on both sides of the 1/64 rule (|x|/|uz| vs 1/64), x/y axes anything
+            zx, zy = r.choice([(1, 0), (0, 1), (1, 1), (-1, 1), (2, 0), (0, -2), (3, 1), (0, 0)])
+            zz = r.choice([40, 60, 70, 100, 150, -50, -70, -130])
+            return mat3(((I(), I(), I()), (I(), I(), I()), (zx, zy, zz)), org)
+        if c < 0.95:
+            return mat3(((I(), I(), I()), (I(), I(), I()), (I(), I(), I(1, 4) * r.choice([-1, 1]))), org)
+        return mat3(((I(), I(), I()), (I(), I(), I()), (I(), I(), I())), org, (I(-1, 1), I(-1, 1), I(-1, 1), I(1, 2)))
+
+    def opmat():
+        c = r.random()
+        t = (I(), I(), I())
+        if c < 0.35:
+            return mat3(r.choice(perms), t)
+        if c < 0.5:
+            return mat3(r.choice(frames), t)
+        if c < 0.7:
+            return g.unimodular()
+        if c < 0.95:
+            return mat3(((I(-2, 2), I(-2, 2), I(-2, 2)), (I(-2, 2), I(-2, 2), I(-2, 2)), (I(-2, 2), I(-2, 2), I(-2, 2))), t)
+        return mat3(((I(-2, 2), I(-2, 2), I(-2, 2)), (I(-2, 2), I(-2, 2), I(-2, 2)), (I(-2, 2), I(-2, 2), I(-2, 2))), t,
+                    (I(-1, 1), I(-1, 1), I(-1, 1), I(1, 2)))
+
+    pt = lambda: frs((H(), H(), H()))
+    qnames = ["ucsToOcs", "ucsToOcs", "ucsDirToOcs", "ucsPointsToOcs", "ucsToWcs", "ucsFromWcs", "ucsDirectionToWcs",
+              "ucsDirectionFromWcsU", "ucsPointsToWcs", "ucsPointsFromWcs", "ucsAxes", "copy", "ucsCopy"]
+
+    def query(name=None):
+        name = name or r.choice(qnames)
+        if name in ("ucsAxes", "copy", "ucsCopy"):
+            return ["q", name, []]
+        if name.startswith("ucsPoints"):
+            return ["q", name, [";".join(pt() for _ in range(r.randint(1, 3)))]]
+        return ["q", name, [pt()]]
+
+    for _ in range(ctx.n(260, 4000)):
+        steps = [query() for _ in range(r.randint(0, 2))]
+        for _ in range(r.randint(1, 5)):
+            c = r.random()
+            if c < 0.6:
+                steps.append(["tr", frs(opmat())])
+            elif c < 0.72:
+                steps.append(["sh", frs((H(), H(), H()))])
+            elif c < 0.84:
+                steps.append(["mv", frs((H(), H(), H()))])
+            elif c < 0.9:
+                steps.append(["fk"])
+            elif c < 0.94:
+                steps.append(["cp"])
+            else:
+                ang = r.choice([math.pi / 2, 1.0, -2.5, r.uniform(-3, 3)])
+                steps.append([r.choice(["rx", "ry", "rz"]), frs([Fr(math.cos(ang)), Fr(math.sin(ang))]), fr(ang)])
+            steps += [query() for _ in range(r.randint(0, 2))]
+        steps += [query("ucsToOcs"), query("ucsToWcs"), query("copy")]
+        yield {"m0": frs(start()), "steps": steps}
+
+
+# ------------------------------------------------------------------------------------------------ X4: Matrix44 histories
+def run_m44_history(tw: Twin, plan: dict) -> str:
+    """in-place operations on ONE real Matrix44 object (`m *= o`, `m *= m`, transpose(), inverse()) with queries in between;
+    returns the body of the Lean request.  Exact comparison until the first inverse() / while fixed-point widths allow."""
+    M = tw.M
+    m = M(parse_list(plan["m0"]))
+    out = [plan["m0"]]
+    exact = True
+    for st in plan["steps"]:
+        state = list(m)
+        sfx, smg = _fxmg(state)
+        if st[0] == "im":
+            o = parse_list(st[1])
+            ofx, omg = _fxmg(o)
+            exact = exact and (sfx + ofx + smg + omg + 4 <= 53)
+            other = M(o)
+            m *= other
+            if list(other) != o:
+                return "|".join(out) + "|operand-mutated"
+            out.append("im~" + st[1])
+        elif st[0] == "is":
+            exact = exact and (2 * sfx + 2 * smg + 4 <= 53)
+            m *= m
+            out.append("is~")
+        elif st[0] == "tp":
+            m.transpose()
+            out.append("tp~")
+        elif st[0] == "fk":  # aliasing: every in-place operation on a COPY; the original must not notice
+            c_ = m.copy()
+            c_ *= M([2.0, 1.0, 0.0, 0.0, 0.0, 1.0, 3.0, 0.0, 1.0, 0.0, 1.0, 0.0, 4.0, 5.0, 6.0, 1.0])
+            c_.transpose()
+            c_ *= c_
+            try:
+                c_.inverse()
+            except ZeroDivisionError:
+                pass
+            out.append("fk~")
+        elif st[0] == "iv":
+            d = _det([Fr(x) for x in state])
+            if d == 0 and not exact:
+                continue  # the float state is singular but it is no longer the exact state of the model (rounded earlier): artifact
+            if d == 0:
+                # exactly singular: part of the histories only when the float arithmetic of this twin can see it (LU pivot
+                # exactly 0 / the 24-term float determinant exactly 0.0); otherwise outside the statement (DESIGN C11 Not proved)
+                if (tw.name == "py" and not _lu_detects([Fr(x) for x in state])) or (tw.name == "pyx" and m.determinant() != 0.0):
+                    continue
+            elif abs(d) * 2**20 < _hadamard([Fr(x) for x in state]):
+                continue  # badly conditioned: not part of the histories
+            try:
+                m.inverse()
+                out.append("iv~ok")
+                exact = exact and tw.name == "pyx" and abs(d) == 1 and (3 * sfx + 3 * smg + 8 <= 53)
+            except ZeroDivisionError:
+                out.append("iv~err")
+                if list(m) != state:
+                    return "|".join(out) + "|state-changed-by-failed-inverse"
+        else:
+            _, kernel, args = st
+            pts = [c for t in args for c in parse_list(t)]
+            afx, amg = _fxmg(pts)
+            if kernel == "copy": val = list(m)
+            elif kernel == "determinant": val = [m.determinant()]
+            elif kernel == "transform": val = list(m.transform(tw.V3(*parse_list(args[0]))))
+            elif kernel == "axes": val = list(m.ux) + list(m.uy) + list(m.uz) + list(m.origin)
+            else: raise KeyError(kernel)
+            big = max([abs(float(x)) for x in val] + [0.25])
+            if kernel == "determinant":
+                tol = "abs:0" if (exact and tw.name == "pyx" and 4 * sfx + 4 * smg + 8 <= 53) else _tolrel(30, Fr(_hadamard([Fr(x) for x in state])))
+            elif exact and (max(sfx, afx) * 2 + max(smg, amg) * 2 + 6 <= 53):
+                tol = "abs:0"
+            else:
+                tol = _tolrel(30, big)
+            out.append("q~" + kernel + "~" + ";;".join(args) + "~" + _ok(val) + "~" + tol)
+    return "|".join(out)
+
+
+def m44_history_plans(ctx, twin: str):
+    g = G(ctx.rng(f"m44hist/{twin}"))
+    r = g.r
+    I = lambda lo=-3, hi=3: Fr(r.randint(lo, hi))
+    H = lambda: Fr(r.randint(-8, 8), r.choice([1, 1, 2]))
+
+    def small():
+        c = r.random()
+        if c < 0.1:  # well-conditioned but tiny / huge determinant (unit conversions): uniform or planar scaling by 2^k
+            k = Fr(2) ** r.choice([-20, -15, -7, 7, 15])
+            kz = r.choice([k, Fr(1)])
+            return [k, 0, 0, 0, 0, k, 0, 0, 0, 0, kz, 0, I(), I(), I(), Fr(1)]
+        if c < 0.45:
+            return g.unimodular()
+        if c < 0.6:
+            m = [I(-2, 2) for _ in range(16)]  # general 4th column too
+            return m
+        if c < 0.7:
+            return g.singular()
+        m = [I() for _ in range(12)] + [I(), I(), I(), Fr(1)]
+        m[3] = m[7] = m[11] = Fr(0)
+        if r.random() < 0.3:
+            m[15] = r.choice([Fr(2), Fr(-1), Fr(1, 2), Fr(-4)])  # last column (0, 0, 0, w), w != 1
+        return m
+
+    def query():
+        k = r.choice(["copy", "copy", "determinant", "determinant", "transform", "axes"])
+        return ["q", k, [frs((H(), H(), H()))] if k == "transform" else []]
+
+    for _ in range(ctx.n(200, 3000)):
+        steps = [query() for _ in range(r.randint(0, 1))]
+        for _ in range(r.randint(1, 5)):
+            c = r.random()
+            steps.append(["im", frs(small())] if c < 0.4 else ["is"] if c < 0.5 else ["tp"] if c < 0.65 else ["fk"] if c < 0.72 else ["iv"])
+            steps += [query() for _ in range(r.randint(0, 2))]
+        steps += [query(), ["q", "copy", []]]
+        yield {"m0": frs(small()), "steps": steps}
+
+
 def _twins(ctx):
     if have_cext():
         return ["py", "pyx"]
@@ -819,17 +1744,74 @@ def _twins(ctx):
     return ["py"]
 
 
+# translated kernel -> the stream kernel that evaluates it (when the names differ)
+STREAM_ALIAS = {"origin": "axes", "ux": "axes", "uy": "axes", "uz": "axes", "ocsUx": "ocsAxes", "ocsUy": "ocsAxes",
+                "ocsUz": "ocsAxes", "ucsOrigin": "ucsAxes", "ucsUx": "ucsAxes", "ucsUy": "ucsAxes", "ucsUz": "ucsAxes",
+                "ucsToOcsFrame": "ucsFrames", "ucsToWcsFrame": "ucsWcsFrame", "ucsTransform": "ucsTransformU"}
+
+
+# polynomial kernels whose float evaluation is NOT exact on dyadic inputs (tolerant stream X2 instead), with the reason
+EXACT_EXEMPT = {
+    "ucsToOcsFrame": "state after a query that takes square roots (streamed as ucsFrames with tolerance abs:0)",
+}
+
+
+def tie_audit(ctx, twin: str, streamed: set, exact: set = frozenset()):
+    """every kernel that regenerate() translates for this twin must have been evaluated against the real code in a
+    correspondence stream of this run (the tie of the translator); a kernel without a stream is a broken obligation"""
+    pyx = twin == "pyx"
+    names = [k[0] for k in vector_kernels(pyx) + matrix_kernels(pyx) + ucs_kernels() + ucs_state_kernels(pyx) + construct_kernels(pyx)]
+    names += ["v3hashArg", "v2hashArg"]
+    missing = []
+    for n in names:
+        s_ = STREAM_ALIAS.get(n, n)
+        if s_ not in streamed:
+            missing.append(n)
+    if "ucsDirectionFromWcsU" not in streamed:  # UCS.direction_from_wcs (Matrix44 has a kernel of the same Lean name)
+        missing.append("UCS.ucsDirectionFromWcs")
+    # kernels without square-root / trig parameters (polynomials, comparisons, decisions) must be in the EXACT stream X1
+    poly = getattr(ctx, "c11_poly", {}).get(twin, set())
+    not_exact = sorted(n for n in poly if STREAM_ALIAS.get(n, n) not in exact and n not in EXACT_EXEMPT)
+    ctx.hist("X0 tie audit", f"{twin}:polynomial-kernels", len(poly))
+    ctx.hist("X0 tie audit", f"{twin}:polynomial-kernels-not-in-X1", len(not_exact))
+    if not_exact:
+        raise AssertionError(f"polynomial kernels of twin {twin} that are not corresponded exactly (X1): {not_exact}")
+    ctx.hist("X0 tie audit", f"{twin}:translated-kernels", len(names))
+    ctx.hist("X0 tie audit", f"{twin}:without-correspondence-stream", len(missing))
+    if missing:
+        raise AssertionError(f"translated kernels of twin {twin} without a correspondence stream: {missing}")
+
+
 def correspond(ctx):
+    """the hand-written driver is written against the signatures of the kernels generated from the UNCHANGED source; when
+    the regenerated kernels changed shape (proof step already broken: theorem / translation) and the driver therefore does
+    not build any more, that is one more broken obligation of the tie, not an infrastructure problem"""
+    try:
+        _correspond(ctx)
+    except Exception as e:  # the runner's Infra class lives in __main__: recognise it by name
+        if type(e).__name__ == "Infra" and str(e).startswith("driver") and \
+                any(b.kind in ("theorem", "translation") for b in ctx.broken):
+            ctx.disagree("driver vs regenerated kernels", "lean/Drivers/C11.lean", "builds against the kernels of the unchanged source",
+                         "does not build against the regenerated kernels: " + str(e)[:1200])
+        else:
+            raise
+
+
+def _correspond(ctx):
     import ezdxf.math.ucs as ucsmod
 
     twins = _twins(ctx)
     build = DRIVER_DEPS
+    streamed = {t: set() for t in twins}
+    exact_streamed = {t: set() for t in twins}
     # ---- X1 exact
     cases = {t: list(exact_cases(ctx, t)) for t in twins}
     impl = _impl_lines(twins, {t: [(k, la, ia) for k, la, ia, _ in cases[t]] for t in twins}, ucsmod)
     lines = []
     for t in twins:
         for (k, la, ia, nt), val in zip(cases[t], impl[t]):
+            streamed[t].add(k)
+            exact_streamed[t].add(k)
             ctx.hist("X1 exact kernels", f"{t}:{k}")
             if val.startswith("err"):
                 ctx.hist("X1 exact kernels", "result:" + val)
@@ -846,6 +1828,7 @@ def correspond(ctx):
     lines = []
     for t in twins:
         for (k, la, ia, tol, nt), val in zip(cases[t], impl[t]):
+            streamed[t].add(k)
             ctx.hist("X2 tolerant kernels", f"{t}:{k}")
             if k == "ocsInit":
                 ctx.hist("X2 tolerant kernels", "ocs:" + val[:4])
@@ -853,6 +1836,42 @@ def correspond(ctx):
                 ctx.hist("X2 tolerant kernels", "result:" + val)
             lines.append((f"t|{t}|{k}|" + "|".join(la) + f"|{val}|{tol}", "agree", nt))
     ctx.correspond("X2 tolerant kernels", "C11", lines, build=build)
+    # ---- X3 UCS histories: method sequences on one object vs the state machine of Model/UcsMachine.lean
+    import json
+    lines = []
+    for t in twins:
+        plans = list(history_plans(ctx, t))
+        if t == "py" and have_cext():
+            bodies = pure_python_worker(["h|" + json.dumps(pl) for pl in plans])
+        else:
+            tw = Twin(t)
+            bodies = [run_history(tw, ucsmod, pl) for pl in plans]
+        for pl, body in zip(plans, bodies):
+            body, dropped = body.rsplit("#", 1)
+            nmut = sum(1 for st in pl["steps"] if st[0] != "q")
+            ctx.hist("X3 UCS histories", f"{t}:mutators={nmut}")
+            if int(dropped):
+                ctx.hist("X3 UCS histories", "to_ocs-queries-dropped(z-axis null or in a decision band)", int(dropped))
+            for st in body.split("|")[1:]:
+                f = st.split("~")
+                ctx.hist("X3 UCS histories", "step:" + (f[1] + (":exact" if f[-1] == "abs:0" else ":tol") if f[0] == "q" else f[0]))
+            lines.append((f"h|{t}|" + body, "agree", nmut >= 2))
+    ctx.correspond("X3 UCS histories", "C11", lines, build=build)
+    # ---- X4 Matrix44 histories: in-place operations on one object vs the machine of Model/UcsMachine.lean (M44Machine)
+    lines = []
+    for t in twins:
+        tw = Twin(t)
+        for pl in m44_history_plans(ctx, t):
+            body = run_m44_history(tw, pl)
+            nmut = sum(1 for st in body.split("|")[1:] if not st.startswith("q~"))
+            ctx.hist("X4 Matrix44 histories", f"{t}:operations={nmut}")
+            for st in body.split("|")[1:]:
+                f = st.split("~")
+                ctx.hist("X4 Matrix44 histories", "step:" + (f[1] + (":exact" if f[-1] == "abs:0" else ":tol") if f[0] == "q" else st if f[0] == "iv" else f[0]))
+            lines.append((f"g|{t}|" + body, "agree", nmut >= 2))
+    ctx.correspond("X4 Matrix44 histories", "C11", lines, build=build)
+    for t in twins:
+        tie_audit(ctx, t, streamed[t], exact_streamed[t])
 
 
 # ================================================================================================ oracle (real code)
@@ -1297,6 +2316,201 @@ def oracle_vectors(acc, tw, g, n):
             acc.fail(f"vec/vec2-identities/{k}/{_short(p)}", "Vec2 det/dot/orthogonal/lerp identities", rep2)
 
 
+def oracle_matrix_laws2(acc, tw, g, n):
+    """session 3: inverse / transpose / determinant laws on the real code (both twins; the Python twin through NumPy)"""
+    M = tw.M
+    r = g.r
+    ident = [1.0 if i % 5 == 0 else 0.0 for i in range(16)]
+    ninf = lambda q: max(sum(abs(x) for x in list(q)[4 * k:4 * k + 4]) for k in range(4))
+    for _ in range(n):
+        A, B = g.unimodular() if r.random() < 0.5 else g.wellcond(), g.unimodular() if r.random() < 0.5 else g.wellcond()
+        if _det(A) == 0 or _det(B) == 0:
+            continue
+        a, b = M(_fl(A)), M(_fl(B))
+        rep = {"op": "laws2", "A": _fl(A), "B": _fl(B)}
+        acc.count("O7 inverse/transpose laws")
+        ia, ib, iab = M(_fl(A)), M(_fl(B)), a * b
+        ia.inverse(); ib.inverse(); iab.inverse()
+        want = ib * ia
+        kap = ninf(a) * ninf(ia) * ninf(b) * ninf(ib)
+        if _mat_err(iab, want) > 64 * EPS * kap * max(abs(x) for x in want):
+            acc.fail(f"inverse/product/{tw.name}/{_short(_fl(A))}", f"(A*B).inverse() deviates from B.inverse()*A.inverse() by {_mat_err(iab, want):.3g}", rep)
+        ch = M.chain(a, b, a)
+        ch.inverse()
+        want = ia * ib * ia
+        if _mat_err(ch, want) > 256 * EPS * kap * ninf(a) * ninf(ia) * max(abs(x) for x in want):
+            acc.fail(f"inverse/chain/{tw.name}/{_short(_fl(A))}", "chain(A,B,A).inverse() != A^-1 * B^-1 * A^-1", rep)
+        # transpose laws are exact on dyadic input
+        ta, tb, tab = M(_fl(A)), M(_fl(B)), a * b
+        ta.transpose(); tb.transpose(); tab.transpose()
+        if list(tab) != list(tb * ta):
+            acc.fail(f"transpose/product/{tw.name}/{_short(_fl(A))}", "(A*B)^T != B^T * A^T on exact input", rep)
+        if abs(ta.determinant() - a.determinant()) > 256 * EPS * float(_hadamard(A)):  # LU rounding scales with the Hadamard bound
+            acc.fail(f"transpose/det/{tw.name}/{_short(_fl(A))}", f"det(A^T) = {ta.determinant()} != det(A) = {a.determinant()}", rep)
+        d = float(_det(A) * _det(B))
+        if abs((a * b).determinant() - d) > 256 * EPS * max(abs(d), float(_hadamard([Fr(x) for x in (a * b)]))):
+            acc.fail(f"det/product/{tw.name}/{_short(_fl(A))}", f"det(A*B) = {(a * b).determinant()} but det A * det B = {d}", rep)
+        tia = M(list(ta))
+        tia.inverse()
+        tt = M(list(ia))
+        tt.transpose()
+        if _mat_err(tia, tt) > 64 * EPS * ninf(a) * ninf(ia) * max(abs(x) for x in tt):
+            acc.fail(f"inverse/transpose/{tw.name}/{_short(_fl(A))}", "(A^T)^-1 != (A^-1)^T", rep)
+        # homogeneous factor: last column (0, 0, 0, w): det = w * det(3x3 block), multiplicative, det * det(inverse) = 1
+        w = float(r.choice([2, -1, -4, 0.5, 0.125, -0.5]))
+        Aw = list(_fl(g.unimodular()))
+        Aw[15] = w
+        aw, iw = M(Aw), M(Aw)
+        iw.inverse()
+        dw = float(_det([Fr(x) for x in Aw]))
+        if abs(aw.determinant() - dw) > 64 * EPS * abs(dw) * 64 or abs(aw.determinant() * iw.determinant() - 1) > 1e-9 or \
+                abs((aw * b).determinant() - dw * float(_det(B))) > 1e-9 * max(1.0, abs(dw * float(_det(B)))) * float(_hadamard(B)):
+            acc.fail(f"det/homogeneous/{tw.name}/{_short(Aw)}/{w}", f"matrix with last column (0,0,0,{w}): determinant() = {aw.determinant()}, exact {dw}; det*det(inv) = {aw.determinant() * iw.determinant()}", dict(rep, Aw=Aw))
+        # an affine matrix: the inverse undoes transform and stays affine
+        v = _fl(g.v3(0))
+        if A[3] == 0 and A[7] == 0 and A[11] == 0 and A[15] == 1:
+            back = ia.transform(a.transform(v))
+            sc = max([abs(x) for x in v] + [1.0]) * ninf(a) * ninf(ia)
+            if not _close(back, v, 64 * EPS * sc) or not _close(list(ia)[3::4], [0.0, 0.0, 0.0, 1.0], 64 * EPS * ninf(a) * ninf(ia)):
+                acc.fail(f"inverse/affine/{tw.name}/{_short(_fl(A))}", f"A^-1(A(v)) = {tuple(back)} != v or the inverse is not affine: 4th column {list(ia)[3::4]}", dict(rep, v=v))
+
+
+def oracle_vec_construct(acc, tw, g, n):
+    """session 3: is_parallel / isclose / division and the construct3d helpers on the real code"""
+    V3 = tw.V3
+    C = _construct3d(tw)
+    r = g.r
+    for _ in range(n):
+        e = r.choice([-6, 0, 6])
+        a, b, c = (V3(_fl(g.v3(e, special=False))) for _ in range(3))
+        if not (any(a) and any(b) and any(c)):
+            continue
+        rep = {"op": "vec2", "a": list(a), "b": list(b), "c": list(c)}
+        acc.count("O8 parallel/construct3d")
+        k = float(g.dy(0, 5, nonzero=True))
+        if not a.is_parallel(a * k) or a.is_parallel(a * k) != (a * k).is_parallel(a):
+            acc.fail(f"vec/is_parallel-multiple/{tw.name}/{_short(a)}", f"{tuple(a)} is not parallel to its multiple by {k}", rep)
+        if a.is_parallel(b) != b.is_parallel(a):
+            acc.fail(f"vec/is_parallel-symmetric/{tw.name}/{_short(a)}", "is_parallel is not symmetric", rep)
+        cr = a.cross(b)
+        if cr.magnitude > 1e-3 * a.magnitude * b.magnitude and a.is_parallel(b):
+            acc.fail(f"vec/is_parallel-false-positive/{tw.name}/{_short(a)}", f"{tuple(a)} and {tuple(b)} reported parallel", rep)
+        for z in (V3(0, 0, 0),):
+            try:
+                a.is_parallel(z)
+                raised = False
+            except ZeroDivisionError:
+                raised = True
+            if not raised:  # both twins normalise the operands first (model: ZeroDivisionError)
+                acc.fail(f"vec/is_parallel-null/{tw.name}", "is_parallel with the null vector did not raise ZeroDivisionError (twins / model differ)", rep)
+        if tuple(a / 4.0) != tuple(a * 0.25) or tuple(2.0 * a) != tuple(a * 2.0):
+            acc.fail(f"vec/div-rmul/{tw.name}/{_short(a)}", "a / 4 != a * 0.25 or 2 * a != a * 2", rep)
+        try:
+            a / 0.0
+            acc.fail(f"vec/div-zero/{tw.name}", "division of a vector by 0.0 did not raise", rep)
+        except ZeroDivisionError:
+            pass
+        # normal_vector_3p
+        if cr.magnitude > 1e-6 * a.magnitude * b.magnitude:
+            nrm = C.normal_vector_3p(c, c + a, c + b)
+            tol = 64 * EPS
+            if abs(nrm.magnitude - 1) > tol or abs(nrm.dot(a.normalize())) > 1e-9 or abs(nrm.dot(b.normalize())) > 1e-9 \
+                    or nrm.dot(cr) <= 0 or not nrm.isclose(-C.normal_vector_3p(c, c + b, c + a), abs_tol=1e-12):
+                acc.fail(f"construct/normal_vector_3p/{tw.name}/{_short(a)}", f"normal_vector_3p = {tuple(nrm)}: not the unit normal (b-a)x(c-a)", rep)
+            # distance point - line against the cross product formula
+            d = C.distance_point_line_3d(c, a, b)
+            ab = b - a
+            if ab.magnitude > 1e-6 * (a.magnitude + b.magnitude):
+                want = (c - a).cross(ab).magnitude / ab.magnitude
+                scale = (c - a).magnitude
+                if abs(d - want) > 2.0 ** -20 * scale or d < 0:
+                    acc.fail(f"construct/distance_point_line/{tw.name}/{_short(c)}", f"distance_point_line_3d = {d}, |(p-a)x(b-a)|/|b-a| = {want}", rep)
+        try:
+            C.distance_point_line_3d(c, a, a)
+            acc.fail(f"construct/distance_point_line-degenerate/{tw.name}", "start == end did not raise ZeroDivisionError", rep)
+        except ZeroDivisionError:
+            pass
+        # basic_transformation = scale, then z-rotation, then translation
+        ang = r.choice([0.0, 0.5, -2.0, math.pi / 2, r.uniform(-7, 7)])
+        mv = r.choice([tuple(b), (0.0, 0.0, 0.0), (1e-13, 0.0, 0.0)])
+        sc = tuple(float(t) for t in g.v3(0, special=False))
+        m = C.basic_transformation(mv, sc, ang)
+        p = list(c)
+        cs, sn = math.cos(ang), math.sin(ang)
+        x, y, z = p[0] * sc[0], p[1] * sc[1], p[2] * sc[2]
+        null = all(abs(t) <= 1e-12 for t in mv)
+        want = (cs * x - sn * y + (0 if null else mv[0]), sn * x + cs * y + (0 if null else mv[1]), z + (0 if null else mv[2]))
+        size = max([abs(t) for t in (x, y, z)] + [abs(t) for t in mv] + [1e-300])
+        if not _close(m.transform(p), want, 16 * EPS * size):
+            acc.fail(f"construct/basic_transformation/{tw.name}/{ang:.4g}", f"basic_transformation({mv}, {sc}, {ang}).transform({p}) = {tuple(m.transform(p))}, scale-rotate-translate gives {want}", dict(rep, angle=ang))
+
+
+def oracle_ucs_objects(acc, tw, U, g, n):
+    """session 3: in-place mutators, the six axis/point constructors and the frame predicates on real objects"""
+    V3, M = tw.V3, tw.M
+    r = g.r
+    for _ in range(n):
+        e = r.choice([-6, 0, 6])
+        o, ax, w = (V3(_fl(g.v3(e, special=False))) for _ in range(3))
+        d = V3(_fl(g.v3(e)))
+        if ax.cross(w).magnitude <= 1e-6 * ax.magnitude * w.magnitude:
+            continue
+        pt = o + w
+        rep = {"op": "ucsobj", "o": list(o), "axis": list(ax), "point": list(pt)}
+        acc.count("O9 UCS objects")
+        sc = 2.0 ** e * 256
+        for name, named, zero in (("from_x_axis_and_point_in_xy", "ux", 2), ("from_x_axis_and_point_in_xz", "ux", 1),
+                                  ("from_y_axis_and_point_in_xy", "uy", 2), ("from_y_axis_and_point_in_yz", "uy", 0),
+                                  ("from_z_axis_and_point_in_xz", "uz", 1), ("from_z_axis_and_point_in_yz", "uz", 0)):
+            u = getattr(U.UCS, name)(o, ax, pt)
+            loc = u.from_wcs(pt)
+            if not u.is_cartesian or not u.matrix.is_orthogonal:
+                acc.fail(f"ucs/{name}/not-cartesian/{tw.name}/{_short(ax)}", f"UCS.{name} is not a right-handed orthonormal frame", rep)
+            if not getattr(u, named).isclose(ax.normalize(), abs_tol=1e-12):
+                acc.fail(f"ucs/{name}/axis/{tw.name}/{_short(ax)}", f"UCS.{name}: {named} = {tuple(getattr(u, named))} is not axis/|axis|", rep)
+            if abs(loc[zero]) > 256 * EPS * sc or not u.origin.isclose(o, abs_tol=0):
+                acc.fail(f"ucs/{name}/plane/{tw.name}/{_short(ax)}", f"UCS.{name}: the defining point has local coordinates {tuple(loc)} (component {zero} must be 0)", rep)
+            dist = ax.cross(w).magnitude / ax.magnitude
+            ni = {"ux": 0, "uy": 1, "uz": 2}[named]
+            other = 3 - ni - zero
+            if abs(abs(loc[other]) - dist) > 1024 * EPS * sc or abs(loc[ni] - w.dot(ax) / ax.magnitude) > 1024 * EPS * sc:
+                acc.fail(f"ucs/{name}/coordinates/{tw.name}/{_short(ax)}", f"UCS.{name}: local coordinates of the defining point {tuple(loc)}; expected projection {w.dot(ax) / ax.magnitude} along {named} and distance {dist} from the axis", rep)
+        # ALL THREE axes given, of any length ("normalization is done at initialization"): unit axes, conversions mutually
+        # inverse, same frame as the two-axis form; a UCS scaled by transform() loses the scaling by copy()/rotate*()
+        u0 = U.UCS.from_x_axis_and_point_in_xy(o, ax, pt)
+        k1, k2, k3 = (abs(float(g.dy(r.choice([-6, 0, 6]), 4, nonzero=True))) for _ in range(3))
+        u3 = U.UCS(origin=o, ux=u0.ux * k1, uy=u0.uy * k2, uz=u0.uz * k3)
+        u2 = U.UCS(origin=o, ux=u0.ux * k1, uy=u0.uy * k2)
+        us = u0.copy()
+        us.transform(M.scale(3.0))
+        for nm, uu in (("UCS(o, ux, uy, uz)", u3), ("scaled.copy()", us.copy()), ("scaled.rotate_local_z()", us.rotate_local_z(0.3)),
+                       ("scaled.rotate()", us.rotate((1, 2, 2), 0.7))):
+            p = V3(_fl(g.v3(e)))
+            back = uu.from_wcs(uu.to_wcs(p))
+            dback = uu.direction_from_wcs(uu.direction_to_wcs(p))
+            tol = 1024 * EPS * (sc + abs(uu.origin.x) + abs(uu.origin.y) + abs(uu.origin.z))
+            if any(abs(axv.magnitude - 1) > 64 * EPS for axv in (uu.ux, uu.uy, uu.uz)) or not _close(back, p, tol) or not _close(dback, p, tol):
+                acc.fail(f"ucs/all-axes-normalized/{nm}/{tw.name}/{_short(ax)}",
+                         f"{nm}: axis lengths {uu.ux.magnitude}, {uu.uy.magnitude}, {uu.uz.magnitude}; from_wcs(to_wcs({tuple(p)})) = {tuple(back)}",
+                         dict(rep, k=[k1, k2, k3], p=list(p)))
+        if not (u3.ux.isclose(u2.ux, abs_tol=1e-12) and u3.uy.isclose(u2.uy, abs_tol=1e-12) and u3.uz.isclose(u2.uz, abs_tol=1e-12)):
+            acc.fail(f"ucs/all-axes-vs-two-axes/{tw.name}/{_short(ax)}", "UCS(o, ux, uy, uz) and UCS(o, ux, uy) give different frames for the same axes", rep)
+        # in-place mutators on one object
+        u = U.UCS.from_x_axis_and_point_in_xy(o, ax, pt)
+        ux, uy, uz, org = u.ux, u.uy, u.uz, u.origin
+        same = u.shift(d)
+        if same is not u or tuple(u.origin) != tuple(org + d) or (tuple(u.ux), tuple(u.uy), tuple(u.uz)) != (tuple(ux), tuple(uy), tuple(uz)):
+            acc.fail(f"ucs/shift/{tw.name}/{_short(d)}", "shift(d): origin != origin + d, axes changed or not the same object", rep)
+        same = u.moveto(d)
+        if same is not u or tuple(u.origin) != tuple(d) or (tuple(u.ux), tuple(u.uy), tuple(u.uz)) != (tuple(ux), tuple(uy), tuple(uz)):
+            acc.fail(f"ucs/moveto/{tw.name}/{_short(d)}", "moveto(d): origin != d, axes changed or not the same object", rep)
+        mt = M(_fl(g.affine(0, 3)))
+        before = M(list(u.matrix))
+        same = u.transform(mt)
+        if same is not u or list(u.matrix) != list(before * mt):
+            acc.fail(f"ucs/transform-matrix/{tw.name}", "transform(m): matrix != matrix * m or not the same object", dict(rep, M=list(mt)))
+
+
 def _guard(acc, fn, tw, g, name=None):
     """one oracle iteration; an exception escaping from the real code is itself a failing input"""
     import traceback
@@ -1327,6 +2541,13 @@ def run_oracles(twin: str, seed: int, quick: bool, ucsmod=None) -> dict:
     g = rng("ocs")
     for _ in range(300 * k):
         _guard(acc, lambda a, t, gg, nn: oracle_ocs_ucs(a, t, ucsmod, gg, nn), tw, g, name="oracle_ocs_ucs")
+    for fn, salt, n in ((oracle_matrix_laws2, "laws2", 200), (oracle_vec_construct, "vc", 200)):
+        g = rng(salt)
+        for _ in range(n * k):
+            _guard(acc, fn, tw, g)
+    g = rng("ucsobj")
+    for _ in range(150 * k):
+        _guard(acc, lambda a, t, gg, nn: oracle_ucs_objects(a, t, ucsmod, gg, nn), tw, g, name="oracle_ucs_objects")
     return {"fails": acc.fails, "counts": acc.counts}
 
 
